@@ -24,6 +24,7 @@ from __future__ import annotations
 import ast
 import functools
 import inspect
+import pathlib
 import textwrap
 
 from gen import GenError
@@ -6529,4 +6530,2454 @@ def gen_gateway_async_fn() -> str:
     out.append("(* from the source of Gateway.send_data; sent: how AshProtocol.send_data(data) ended *)\n"
                "Definition py_Gateway_send_data (s : gwa_state) (data : list N) (sent : gwa_delegate) : gwa_state * gwa_status :=\n"
                f"  let '{GA_ST} := s in\n{textwrap.indent(term, '  ')}.\n")
+    return "".join(out)
+
+
+
+
+# ==================================================================================================
+# C14: util.zha_security, ezsp_key_to_zigpy_key, zigpy_key_to_ezsp_key (bellows/zigbee/util.py), the per-version
+# accessors write_nwk_frame_counter / write_aps_frame_counter / write_link_keys / write_child_data
+# (bellows/ezsp/vN/__init__.py) and ControllerApplication.write_network_info / reset_network_info / _reset
+# (bellows/zigbee/application.py) -> coq/gen/GenNetInfoFn.v
+#
+# Straight-line code with `if` joins is translated in let style: an `if` becomes `let '(x, y) := if c then .. (x, y)
+# else .. (x, y) in` over the variables either branch assigns (a variable only one branch defines is unusable
+# afterwards).  Locally created structs (EmberInitialSecurityState(), EmberNetworkParameters(), EmberKeyStruct(),
+# zigpy.state.Key()) are one Coq variable per field; a field is readable / returnable only when it is assigned on
+# every path.  Operations that can raise (a stack-specific key that is absent) make the emitted function partial
+# (option).  In the coroutine every await appends a step to `eff`; the answers of the NCP that decide a branch are
+# parameters.  The accessors are lists of commands (a `for` is a flat_map over the argument).
+# ==================================================================================================
+NETINFO_PRELUDE = r"""(* GENERATED by harness/pysrc.py from the SOURCE TEXT of bellows/zigbee/util.py (zha_security, ezsp_key_to_zigpy_key,
+   zigpy_key_to_ezsp_key), of the write accessors of bellows/ezsp/vN/__init__.py and of ControllerApplication.write_network_info,
+   reset_network_info, _reset (bellows/zigbee/application.py) -- do not edit *)
+From Coq Require Import String NArith List Bool.
+Import ListNotations.
+Require Import BV.gen.GenSecurity BV.model.NetInfo.
+Open Scope N_scope.
+
+(* ---- fixed vocabulary (not derived from the source) -------------------------------------------------------------
+   an EUI64 value that may be EUI64.UNKNOWN (ff:ff:ff:ff:ff:ff:ff:ff): None = UNKNOWN, the convention of
+   NetInfo.tc_address; == / != between two such values *)
+Definition py_eui := option bytes.
+Definition py_eui_eqb (a b : py_eui) : bool :=
+  match a, b with None, None => true | Some x, Some y => bytes_eqb x y | _, _ => false end.
+(* the eight bytes of such a value *)
+Definition py_eui_bytes (a : py_eui) : bytes := match a with Some x => x | None => [255; 255; 255; 255; 255; 255; 255; 255] end.
+(* t.KeyData.deserialize(bytes.fromhex(x))[0]: NetInfo keeps a key as a byte string of any length and the stack-specific
+   hashed key as the bytes its hex text denotes; KeyData's length check (exactly 16 bytes are taken) is outside the model *)
+Definition py_key_of_hex (h : bytes) : bytes := h.
+(* truth value of stack_specific.get("hashed_tclk"): absent -> None -> false; the empty string is false as well *)
+Definition py_truthy_hex (h : option bytes) : bool := match h with Some (_ :: _) => true | _ => false end.
+(* network_info.tc_link_key.partner_ieee = a ; network_info.stack_specific.setdefault("ezsp", {})["hashed_tclk"] = h *)
+Definition ni_set_tc_address (ni : netinfo) (a : py_eui) : netinfo :=
+  {| pan_id := pan_id ni; ext_pan_id := ext_pan_id ni; channel := channel ni; channel_mask := channel_mask ni;
+     update_id := update_id ni; manager_id := manager_id ni; nwk_key := nwk_key ni; nwk_key_seq := nwk_key_seq ni;
+     nwk_key_fc := nwk_key_fc ni; tclk := tclk ni; tclk_fc := tclk_fc ni; tc_address := a; hashed_tclk := hashed_tclk ni;
+     link_keys := link_keys ni; children := children ni |}.
+Definition ni_set_hashed_tclk (ni : netinfo) (h : option bytes) : netinfo :=
+  {| pan_id := pan_id ni; ext_pan_id := ext_pan_id ni; channel := channel ni; channel_mask := channel_mask ni;
+     update_id := update_id ni; manager_id := manager_id ni; nwk_key := nwk_key ni; nwk_key_seq := nwk_key_seq ni;
+     nwk_key_fc := nwk_key_fc ni; tclk := tclk ni; tclk_fc := tclk_fc ni; tc_address := tc_address ni; hashed_tclk := h;
+     link_keys := link_keys ni; children := children ni |}.
+(* an element of NetInfo.children stands for an entry of network_info.children together with what
+   network_info.nwk_addresses says about it: (ieee, Some nwk) iff the address is a key of nwk_addresses *)
+Definition py_child_ieee (c : bytes * option N) : bytes := fst c.
+Definition py_in_nwk_addresses (c : bytes * option N) : bool := match snd c with Some _ => true | None => false end.
+Definition py_nwk_address (c : bytes * option N) : option N := snd c.
+
+(* the two key records of the conversion functions; an option field is None where the Python attribute is None.
+   EmberKeyStruct.type is not touched by the functions and is left out *)
+Record py_ezsp_key := { ek_bitmask : N; ek_key : bytes; ek_outgoingFrameCounter : option N; ek_incomingFrameCounter : option N;
+                        ek_sequenceNumber : option N; ek_partnerEUI64 : option bytes }.
+Record py_zigpy_key := { zk_key : bytes; zk_tx_counter : option N; zk_rx_counter : option N; zk_seq : option N;
+                         zk_partner_ieee : option bytes }.
+
+(* commands a write accessor of the protocol handler sends, in order *)
+Inductive py_cmd :=
+| CQuery (name : string)                                 (* a command that only reads, e.g. networkState *)
+| CGuard                                                 (* assert <test on the last answer>: the accessor raises if it fails *)
+| CSetValue (value_id : N) (value : N)                   (* setValue(valueId=.., value=t.uint32_t(<value>).serialize()) *)
+| CAddOrUpdateKeyTableEntry (address : bytes) (link_key : bool) (key : bytes)
+| CImportLinkKey (index : N) (address : bytes) (key : bytes)
+| CSetChildData (index : N) (eui64 : bytes) (id : N).
+
+(* what ControllerApplication.write_network_info awaits, in order *)
+Inductive py_app_step :=
+| AResetNetworkInfo                                      (* await self.reset_network_info() *)
+| AGetEui64 | ACanRewrite | ACanBurn                     (* getEui64, can_rewrite_custom_eui64, can_burn_userdata_custom_eui64 *)
+| AWriteCustomEui64 (ieee : py_eui) (burn_into_userdata : bool)
+| AReset                                                 (* await self._reset() *)
+| AWriteNwkFc (n : N) | AWriteApsFc (n : N)              (* ezsp.write_nwk_frame_counter / write_aps_frame_counter *)
+| ASetInitialSecurityState (s : secstate)
+| AGuard                                                 (* assert on the last answer *)
+| AWriteLinkKeys (l : list (bytes * bytes))
+| AWriteChildData (l : list (bytes * N))
+| AFormNetwork (p : netparams)
+| AEnsureRunning.                                        (* await self._ensure_network_running() *)
+Inductive py_wn_outcome := WnDone | WnRaised (exn : string).
+
+(* calls of a straight-line coroutine: `target.name(..)`, awaited or not; try / except <exn>: pass / else *)
+Inductive py_call :=
+| RCall (target name : string)
+| RTryElse (body : list py_call) (exn : string) (orelse : list py_call).
+
+"""
+
+NI_REC_FIELDS = {
+    "netinfo": {"network_key.key": ("nwk_key", "bytes"), "network_key.seq": ("nwk_key_seq", "N"), "network_key.tx_counter": ("nwk_key_fc", "N"),
+                "tc_link_key.key": ("tclk", "bytes"), "tc_link_key.tx_counter": ("tclk_fc", "N"), "tc_link_key.partner_ieee": ("tc_address", "eui"),
+                "key_table": ("link_keys", "keys"), "pan_id": ("pan_id", "N"), "extended_pan_id": ("ext_pan_id", "bytes"),
+                "channel": ("channel", "N"), "channel_mask": ("channel_mask", "N"), "nwk_update_id": ("update_id", "N"),
+                "nwk_manager_id": ("manager_id", "N"), "children": ("children", "children")},
+    "ekey": {"bitmask": ("ek_bitmask", "N"), "key": ("ek_key", "bytes"), "outgoingFrameCounter": ("ek_outgoingFrameCounter", "optN"),
+             "incomingFrameCounter": ("ek_incomingFrameCounter", "optN"), "sequenceNumber": ("ek_sequenceNumber", "optN"),
+             "partnerEUI64": ("ek_partnerEUI64", "optbytes")},
+    "zkey": {"key": ("zk_key", "bytes"), "tx_counter": ("zk_tx_counter", "optN"), "rx_counter": ("zk_rx_counter", "optN"),
+             "seq": ("zk_seq", "optN"), "partner_ieee": ("zk_partner_ieee", "optbytes")},
+    "linkkey": {"partner_ieee": ("fst", "bytes"), "key": ("snd", "bytes")},
+}
+NI_REC_SETTERS = {"netinfo": {"tc_link_key.partner_ieee": ("ni_set_tc_address", "eui")}}
+# locally created structs: class name -> (Coq record type | None, field -> (record field, type), fields left out of the record)
+NI_STRUCTS = {
+    "EmberInitialSecurityState": ("secstate", {"bitmask": ("s_bitmask", "N"), "preconfiguredKey": ("s_preconfigured", "bytes"),
+                                               "networkKey": ("s_network_key", "bytes"), "networkKeySequenceNumber": ("s_seq", "N"),
+                                               "preconfiguredTrustCenterEui64": ("s_tc_eui64", "bytes")}, ()),
+    "EmberNetworkParameters": ("netparams", {"panId": ("p_pan", "N"), "extendedPanId": ("p_epan", "bytes"), "radioChannel": ("p_channel", "N"),
+                                             "channels": ("p_mask", "N"), "nwkUpdateId": ("p_update", "N"), "nwkManagerId": ("p_manager", "N")},
+                               ("radioTxPower", "joinMethod")),
+    "EmberKeyStruct": ("py_ezsp_key", dict((k, v) for k, v in NI_REC_FIELDS["ekey"].items()), ("type",)),
+    "Key": ("py_zigpy_key", dict((k, v) for k, v in NI_REC_FIELDS["zkey"].items()), ()),
+}
+NI_CASTS = {"KeyData": ("bytes",), "uint8_t": ("N",), "uint16_t": ("N",), "uint32_t": ("N",), "EmberPanId": ("N",), "EmberNodeId": ("N",),
+            "Channels": ("N",), "EUI64": ("eui", "bytes")}
+NI_ORACLES = {"can_rewrite_custom_eui64": ("ACanRewrite", "can_rewrite"), "can_burn_userdata_custom_eui64": ("ACanBurn", "can_burn")}
+
+
+NI_RESERVED = {f[0] for d in NI_REC_FIELDS.values() for f in d.values()} | {
+    "eff", "hashed_tclk", "urandom", "ncp_eui64", "can_rewrite", "can_burn", "stack_specific_flag", "ezsp_version", "enumerate", "flat_map",
+    "has_bits", "bytes", "bytes_eqb", "hex_v", "nwk_v", "zero_eui", "ibit", "flag", "known_children", "write_plan", "v"}
+
+
+def _ni_name(n: str) -> str:
+    """a Python local must not capture a name the emitted terms use"""
+    return n + "_l" if n in NI_RESERVED else n
+
+
+def _ni_blist(b) -> str:
+    return "[" + "; ".join(str(x) for x in bytes(b)) + "]"
+
+
+class NiTr:
+    """mode "pure": a synchronous function of util.py; mode "script": the coroutine write_network_info (awaits append to eff)"""
+
+    def __init__(self, where, ns, mode):
+        self.where, self.ns, self.mode = where, ns, mode
+        self.raises = 0            # number of raising operations emitted (pure mode: the function is partial iff > 0)
+        self.notes = []            # what was skipped / read from the live modules, for the emitted comment
+        self.depth = 0
+
+    def refuse(self, node, why="unsupported construct"):
+        src = ast.unparse(node) if isinstance(node, ast.AST) else str(node)
+        raise GenError(self.where, f"{why}: `{src[:120]}`")
+
+    def note(self, text):
+        if text not in self.notes:
+            self.notes.append(text)
+
+    # ---- environment ---------------------------------------------------------------------------------------------------
+    @staticmethod
+    def coqvar(key):
+        return _ni_name({"node_info.ieee": "node_ieee"}.get(key, key.replace(".", "_")))
+
+    def bind(self, env, key, ty):
+        env = dict(env)
+        env[key] = ("val", self.coqvar(key), ty)
+        env["\0assigned"] = env.get("\0assigned", ()) + ((key,) if key not in env.get("\0assigned", ()) else ())
+        return env
+
+    @staticmethod
+    def path(e):
+        parts = []
+        while isinstance(e, ast.Attribute):
+            parts.append(e.attr)
+            e = e.value
+        if isinstance(e, ast.Name) and parts:
+            return e.id, ".".join(reversed(parts))
+        return None
+
+    def ezsp_attr(self, e, env):
+        """e is <the EZSP object>.<attr>: the attr"""
+        if not isinstance(e, ast.Attribute):
+            return None
+        v = e.value
+        if isinstance(v, ast.Name) and env.get(v.id, (None,))[0] == "ezsp":
+            return e.attr
+        if ast.unparse(v) == "self._ezsp" and "self" in env:
+            return e.attr
+        return None
+
+    # ---- expressions ---------------------------------------------------------------------------------------------------
+    def live(self, e, obj):
+        import enum
+        if isinstance(obj, enum.Enum) and isinstance(obj, int) and int(obj) >= 0:
+            self.note(f"{type(obj).__name__}.{obj.name} = {int(obj)}")
+            return f"{int(obj)}", "N"
+        if type(obj).__name__ == "EUI64" and isinstance(obj, list):
+            return self.eui_literal(obj)
+        self.refuse(e, "a name of the live module that is neither an enum member nor an EUI64")
+
+    def eui_literal(self, obj):
+        import zigpy.types as zt
+        if obj == zt.EUI64.UNKNOWN:
+            return "(@None bytes)", "eui"
+        return f"(Some {_ni_blist(obj.serialize())})", "eui"
+
+    def coerce(self, c, ty, want, node):
+        if ty == want:
+            return c
+        if (ty, want) in (("N", "optN"), ("bytes", "optbytes")):
+            return f"(Some {c})"
+        if (ty, want) == ("eui", "bytes"):
+            return f"(py_eui_bytes {c})"
+        self.refuse(node, f"a value of type {ty} where {want} is expected")
+
+    def ex(self, e, env):
+        import enum
+        src = ast.unparse(e)
+        if ("=" + src) in env:
+            _, c, ty = env["=" + src]
+            return c, ty
+        if isinstance(e, ast.Constant):
+            if isinstance(e.value, bool):
+                return ("true" if e.value else "false"), "bool"
+            if isinstance(e.value, int) and e.value >= 0:
+                return str(e.value), "N"
+            if isinstance(e.value, bytes):
+                return _ni_blist(e.value), "bytes"
+            self.refuse(e, "constant")
+        if isinstance(e, ast.Name):
+            b = env.get(e.id)
+            if b and b[0] == "val":
+                return b[1], b[2]
+            self.refuse(e, "a name that is unknown, possibly unset on some path, or not a value")
+        if isinstance(e, ast.Attribute):
+            a = self.ezsp_attr(e, env)
+            if a == "ezsp_version":
+                return "ezsp_version", "N"
+            p = self.path(e)
+            if p and p[0] in env:
+                base, attrs = p
+                b = env[base]
+                if b[0] == "rec":
+                    f = NI_REC_FIELDS[b[2]].get(attrs)
+                    if f is None:
+                        self.refuse(e, f"attribute outside the model's record ({b[2]})")
+                    return f"({f[0]} {b[1]})", f[1]
+                if b[0] in ("node", "struct"):
+                    key = f"{base}.{attrs}"
+                    if key in env and env[key][0] == "val":
+                        return env[key][1], env[key][2]
+                    self.refuse(e, "attribute that is not assigned on every path (or not modelled)")
+                self.refuse(e, "attribute of a local value")
+            obj = _resolve(self.ns, e)
+            if obj is not _MISSING:
+                return self.live(e, obj)
+            self.refuse(e, "attribute")
+        if isinstance(e, ast.Call):
+            f = e.func
+            obj = _resolve(self.ns, f)
+            if isinstance(obj, type) and not e.keywords and len(e.args) == 1:
+                if issubclass(obj, enum.Flag) and issubclass(obj, int) and isinstance(e.args[0], ast.Constant) and isinstance(e.args[0].value, int) and e.args[0].value >= 0:
+                    return str(e.args[0].value), "N"
+                if obj.__name__ in NI_CASTS:
+                    c, ty = self.ex(e.args[0], env)
+                    if ty not in NI_CASTS[obj.__name__]:
+                        self.refuse(e, f"{obj.__name__}(..) of a value of type {ty}")
+                    self.note(f"{obj.__name__}(x) is x (range / length checks of the type are outside the model)")
+                    return c, ty
+            if isinstance(f, ast.Attribute) and f.attr == "convert" and len(e.args) == 1 and not e.keywords \
+                    and isinstance(e.args[0], ast.Constant) and isinstance(e.args[0].value, str):
+                cls = _resolve(self.ns, f.value)
+                if isinstance(cls, type) and cls.__name__ == "EUI64":
+                    return self.eui_literal(cls.convert(e.args[0].value))
+            self.refuse(e, "call")
+        if isinstance(e, ast.BinOp) and isinstance(e.op, ast.BitOr):
+            (a, ta), (b, tb) = self.ex(e.left, env), self.ex(e.right, env)
+            if ta != "N" or tb != "N":
+                self.refuse(e, "| of non-numbers")
+            return f"(N.lor {a} {b})", "N"
+        if isinstance(e, ast.Compare) and len(e.ops) == 1:
+            op, l, r = e.ops[0], e.left, e.comparators[0]
+            if isinstance(op, ast.In):
+                (a, ta), (b, tb) = self.ex(l, env), self.ex(r, env)
+                lo, ro = _resolve(self.ns, l), None
+                if ta == "N" and tb == "N" and isinstance(lo, enum.Flag) and isinstance(lo, int):
+                    return f"(has_bits {b} {a})", "bool"            # flag in mask: mask & flag == flag
+                self.refuse(e, "`in` other than <flag member> in <bitmask>")
+            (a, ta), (b, tb) = self.ex(l, env), self.ex(r, env)
+            if ta != tb:
+                self.refuse(e, f"comparison of {ta} with {tb}")
+            if isinstance(op, (ast.Eq, ast.NotEq)):
+                eqb = {"N": "N.eqb", "bytes": "bytes_eqb", "eui": "py_eui_eqb", "bool": "Bool.eqb"}.get(ta)
+                if eqb is None:
+                    self.refuse(e, f"== on {ta}")
+                t = f"({eqb} {a} {b})"
+                return (t if isinstance(op, ast.Eq) else f"(negb {t})"), "bool"
+            if ta == "N" and isinstance(op, (ast.Gt, ast.Lt, ast.GtE, ast.LtE)):
+                return {ast.Gt: f"({b} <? {a})", ast.Lt: f"({a} <? {b})", ast.GtE: f"({b} <=? {a})", ast.LtE: f"({a} <=? {b})"}[type(op)], "bool"
+            self.refuse(e, "comparison")
+        if isinstance(e, ast.UnaryOp) and isinstance(e.op, ast.Not):
+            return f"(negb {self.truth(e.operand, env)})", "bool"
+        if isinstance(e, ast.BoolOp):
+            parts = [self.truth(v, env) for v in e.values]
+            fn = "andb" if isinstance(e.op, ast.And) else "orb"
+            t = parts[-1]
+            for p in reversed(parts[:-1]):
+                t = f"({fn} {p} {t})"
+            return t, "bool"
+        self.refuse(e, "expression")
+
+    def truth(self, e, env):
+        """e in a boolean context (no awaits)"""
+        # stack_specific.get("<key>")
+        if isinstance(e, ast.Call) and isinstance(e.func, ast.Attribute) and e.func.attr == "get" and isinstance(e.func.value, ast.Name) \
+                and env.get(e.func.value.id, (None,))[0] == "ss" and len(e.args) == 1 and not e.keywords \
+                and isinstance(e.args[0], ast.Constant) and isinstance(e.args[0].value, str):
+            if not env[e.func.value.id][1]:
+                self.refuse(e, "the stack-specific dict is read after it may have been replaced by setdefault")
+            key = e.args[0].value
+            if key == "hashed_tclk":
+                return f"(py_truthy_hex (hashed_tclk {env['network_info'][1]}))"
+            if '"' in key:
+                self.refuse(e, "key")
+            return f'(stack_specific_flag "{key}"%string)'
+        if isinstance(e, ast.UnaryOp) and isinstance(e.op, ast.Not):
+            return f"(negb {self.truth(e.operand, env)})"
+        if isinstance(e, ast.BoolOp):
+            return self.ex(e, env)[0]
+        c, ty = self.ex(e, env)
+        if ty != "bool":
+            self.refuse(e, f"truth value of a {ty}")
+        return c
+
+    def pure(self, e, env):
+        """an expression the translation drops: no await, no call except casts / from_ember_status, no walrus"""
+        for n in ast.walk(e):
+            if isinstance(n, (ast.Await, ast.NamedExpr, ast.Yield, ast.YieldFrom, ast.Lambda)):
+                self.refuse(e, "a dropped expression must have no effect")
+            if isinstance(n, ast.Call):
+                obj = _resolve(self.ns, n.func)
+                ok = (isinstance(obj, type) and (obj.__name__ in NI_CASTS)) or ast.unparse(n.func).endswith("sl_Status.from_ember_status")
+                if not ok:
+                    self.refuse(e, f"a dropped expression calls {ast.unparse(n.func)}")
+
+    # ---- statements ----------------------------------------------------------------------------------------------------
+    def tuple_of(self, env, keys):
+        names = [self.coqvar(k) if k != "eff" else "eff" for k in keys]
+        return names[0] if len(names) == 1 else "(" + ", ".join(names) + ")"
+
+    def seq(self, stmts, env, k):
+        stmts = ThTr.clean(stmts)
+        if not stmts:
+            return k(env)
+        s, rest = stmts[0], stmts[1:]
+        go = lambda env2: self.seq(rest, env2, k)          # noqa: E731
+        # ---- return
+        if isinstance(s, ast.Return):
+            if self.mode != "pure" or self.depth or rest:
+                self.refuse(s, "return other than as the last statement of a synchronous function")
+            return self.ret(s.value, env)
+        # ---- if
+        if isinstance(s, ast.If):
+            return self.do_if(s, env, go)
+        # ---- assert (script): a guard
+        if isinstance(s, ast.Assert):
+            if self.mode != "script":
+                self.refuse(s)
+            self.pure(s.test, env)
+            return "let eff := eff ++ [AGuard] in\n" + go(self.touch(env, "eff"))
+        # ---- expression statement: an await
+        if isinstance(s, ast.Expr) and isinstance(s.value, ast.Await):
+            return self.do_await(s.value.value, None, env, go, s)
+        if isinstance(s, ast.AugAssign) and isinstance(s.op, ast.BitOr):
+            key = self.target_key(s.target, env)
+            if key is None or key not in env:
+                self.refuse(s, "|= on something that is not an assigned struct field / local")
+            c, ty = self.ex(s.value, env)
+            if ty != "N" or env[key][2] != "N":
+                self.refuse(s, "|= of non-numbers")
+            return f"let {self.coqvar(key)} := N.lor {self.coqvar(key)} {c} in\n" + go(self.bind(env, key, "N"))
+        if isinstance(s, ast.Assign) and len(s.targets) == 1:
+            return self.do_assign(s, env, go)
+        self.refuse(s)
+
+    def touch(self, env, key):
+        env = dict(env)
+        env["\0assigned"] = env.get("\0assigned", ()) + ((key,) if key not in env.get("\0assigned", ()) else ())
+        return env
+
+    def target_key(self, t, env):
+        if isinstance(t, ast.Name):
+            return t.id
+        p = self.path(t)
+        if p and p[0] in env and env[p[0]][0] in ("struct", "node"):
+            return f"{p[0]}.{p[1]}"
+        return None
+
+    def fail(self, env, exn):
+        self.raises += 1
+        if self.mode == "pure":
+            return "None"
+        if self.depth:
+            self.refuse(exn, "an operation that can raise inside a branch of the coroutine")
+        return f'(eff, WnRaised "{exn}"%string, {env["network_info"][1]}, node_ieee)'
+
+    def do_assign(self, s, env, go):
+        t, v = s.targets[0], s.value
+        src = ast.unparse(s)
+        # x = self._ezsp
+        if isinstance(t, ast.Name) and ast.unparse(v) == "self._ezsp" and "self" in env:
+            env = dict(env)
+            env[t.id] = ("ezsp",)
+            return go(env)
+        # stack_specific = network_info.stack_specific.get("ezsp", {})
+        if isinstance(t, ast.Name) and _dump(ast.unparse(v)) == _dump("network_info.stack_specific.get('ezsp', {})") \
+                and env.get("network_info", (None,))[0] == "rec":
+            env = dict(env)
+            env[t.id] = ("ss", True)
+            return go(env)
+        # (x,) = await ezsp.cmd(..)
+        if isinstance(v, ast.Await):
+            return self.do_await(v.value, t, env, go, s)
+        # network_info.stack_specific.setdefault("ezsp", {})["hashed_tclk"] = os.urandom(16).hex()
+        if isinstance(t, ast.Subscript):
+            import os as _os
+            want_t = "network_info.stack_specific.setdefault('ezsp', {})['hashed_tclk']"
+            ok = _dump(ast.unparse(t)) == _dump(want_t) and env.get("network_info", (None,))[0] == "rec" and self.mode == "script"
+            ok = ok and isinstance(v, ast.Call) and isinstance(v.func, ast.Attribute) and v.func.attr == "hex" and not v.args and not v.keywords
+            inner = v.func.value if ok else None
+            ok = ok and isinstance(inner, ast.Call) and _resolve(self.ns, inner.func) is _os.urandom and len(inner.args) == 1 \
+                and isinstance(inner.args[0], ast.Constant) and inner.args[0].value == 16 and not inner.keywords
+            if not ok:
+                self.refuse(s, "subscript assignment")
+            self.note("os.urandom(16).hex() is the argument urandom (the bytes the hex text denotes)")
+            env = {k2: (("ss", False) if b[0] == "ss" else b) for k2, b in env.items() if not k2.startswith("\0")} | \
+                  {k2: b for k2, b in env.items() if k2.startswith("\0")}
+            ni = env["network_info"][1]
+            return f"let {ni} := ni_set_hashed_tclk {ni} (Some urandom) in\n" + go(self.touch(env, "network_info"))
+        # a, _ = t.KeyData.deserialize(bytes.fromhex(network_info.stack_specific["ezsp"]["hashed_tclk"]))
+        if isinstance(t, ast.Tuple):
+            if len(t.elts) == 2 and isinstance(t.elts[1], ast.Name) and t.elts[1].id == "_" and isinstance(v, ast.Call) and len(v.args) == 1 \
+                    and not v.keywords and isinstance(v.func, ast.Attribute) and v.func.attr == "deserialize":
+                cls = _resolve(self.ns, v.func.value)
+                a = v.args[0]
+                if isinstance(cls, type) and cls.__name__ == "KeyData" and isinstance(a, ast.Call) and ast.unparse(a.func) == "bytes.fromhex" \
+                        and len(a.args) == 1 and not a.keywords \
+                        and _dump(ast.unparse(a.args[0])) == _dump("network_info.stack_specific['ezsp']['hashed_tclk']") \
+                        and env.get("network_info", (None,))[0] == "rec":
+                    key = self.target_key(t.elts[0], env)
+                    if key is None:
+                        self.refuse(s, "target")
+                    fty = self.field_type(key, env, t.elts[0])
+                    if fty != "bytes":
+                        self.refuse(s, "a key stored into a field that is not key data")
+                    self.note("network_info.stack_specific['ezsp']['hashed_tclk'] raises KeyError when absent (None)")
+                    ni = env["network_info"][1]
+                    bad = self.fail(env, "KeyError")
+                    return (f"match hashed_tclk {ni} with\n| None => {bad}\n| Some hex_v =>\n"
+                            f"let {self.coqvar(key)} := py_key_of_hex hex_v in\n" + go(self.bind(env, key, "bytes")) + "\nend")
+            self.refuse(s, "tuple assignment")
+        # x = <Struct>()
+        if isinstance(t, ast.Name) and isinstance(v, ast.Call) and not v.args and not v.keywords:
+            cls = _resolve(self.ns, v.func)
+            if isinstance(cls, type) and cls.__name__ in NI_STRUCTS:
+                return self.new_struct(t.id, cls, env, go)
+        # x = {k: network_info.nwk_addresses[k] for k in network_info.children if k in network_info.nwk_addresses}
+        if isinstance(t, ast.Name) and isinstance(v, ast.DictComp):
+            return self.children_comp(t.id, v, env, go, s)
+        # x = util.zha_security(network_info=.., use_hashed_tclk=..)
+        if isinstance(t, ast.Name) and isinstance(v, ast.Call) and self.mode == "script":
+            import bellows.zigbee.util as U
+            if _resolve(self.ns, v.func) is U.zha_security:
+                kw = {k.arg: k.value for k in v.keywords}
+                if v.args or set(kw) != {"network_info", "use_hashed_tclk"}:
+                    self.refuse(s, "arguments of zha_security")
+                b = env.get(getattr(kw["network_info"], "id", None))
+                if not b or b[0] != "rec" or b[2] != "netinfo":
+                    self.refuse(s, "network_info argument")
+                u, ty = self.ex(kw["use_hashed_tclk"], env)
+                if ty != "bool":
+                    self.refuse(s, "use_hashed_tclk argument")
+                bad = self.fail(env, "KeyError")
+                return (f"match py_zha_security {b[1]} {u} with\n| None => {bad}\n| Some {t.id} =>\n" + go(self.bind(env, t.id, "sec")) + "\nend")
+        # plain value / struct field / record field
+        key = self.target_key(t, env)
+        if key is not None:
+            p = self.path(t)
+            if p and env[p[0]][0] == "struct":
+                _, sname, left_out = env[p[0]]
+                if p[1] in left_out:
+                    self.pure(v, env)
+                    self.note(f"{p[0]}.{p[1]} = {ast.unparse(v)} (a struct field that is not part of the model's record)")
+                    return go(env)
+            c, ty = self.ex(v, env)
+            fty = self.field_type(key, env, t) or ty
+            c = self.coerce(c, ty, fty, s)
+            if fty not in ("N", "bool", "bytes", "eui", "optN", "optbytes", "keys", "kids", "sec"):
+                self.refuse(s, f"a local of type {fty}")
+            return f"let {self.coqvar(key)} := {c} in\n" + go(self.bind(env, key, fty))
+        p = self.path(t)
+        if p and p[0] in env and env[p[0]][0] == "rec":
+            st = NI_REC_SETTERS.get(env[p[0]][2], {}).get(p[1])
+            if st is None or self.mode != "script":
+                self.refuse(s, "assignment to an attribute of the argument")
+            c, ty = self.ex(v, env)
+            c = self.coerce(c, ty, st[1], s)
+            rec = env[p[0]][1]
+            return f"let {rec} := {st[0]} {rec} {c} in\n" + go(self.touch(env, p[0]))
+        self.refuse(s, "assignment")
+
+    def field_type(self, key, env, node):
+        if "." not in key:
+            return None
+        base, attr = key.split(".", 1)
+        b = env[base]
+        if b[0] == "node":
+            if attr != "ieee":
+                self.refuse(node, "attribute of node_info")
+            return "eui"
+        f = NI_STRUCTS[b[1]][1].get(attr)
+        if f is None:
+            self.refuse(node, f"field {attr} of {b[1]} is not modelled")
+        return f[1]
+
+    def new_struct(self, name, cls, env, go):
+        sname = cls.__name__
+        rec, fields, left_out = NI_STRUCTS[sname]
+        if sname == "Key":
+            import dataclasses
+            import zigpy.state
+            if cls is not zigpy.state.Key or [f.name for f in dataclasses.fields(cls)] != ["key", "tx_counter", "rx_counter", "seq", "partner_ieee"]:
+                raise GenError(self.where, f"zigpy.state.Key has the fields {[f.name for f in dataclasses.fields(cls)]}")
+            d = cls()
+            init = {"key": (_ni_blist(d.key.serialize()), "bytes"), "tx_counter": (str(int(d.tx_counter)), "N"),
+                    "rx_counter": (str(int(d.rx_counter)), "N"), "seq": (str(int(d.seq)), "N"),
+                    "partner_ieee": (_ni_blist(d.partner_ieee.serialize()), "bytes")}
+            self.note("zigpy.state.Key() starts from the dataclass defaults of the live class")
+        else:
+            live = [f.name for f in cls.fields]
+            if sorted(live) != sorted(list(fields) + list(left_out)):
+                raise GenError(self.where, f"{sname} has the fields {live}, expected {sorted(list(fields) + list(left_out))}")
+            # an attribute of a zigpy Struct that was never assigned reads as None
+            init = {f: ("(@None N)" if fty == "optN" else "(@None bytes)", fty) for f, (_, fty) in fields.items() if fty.startswith("opt")}
+        env = dict(env)
+        for k2 in [k2 for k2 in env if k2.startswith(name + ".")]:
+            del env[k2]
+        env[name] = ("struct", sname, left_out)
+        out = ""
+        for f, (c, ty) in init.items():
+            fty = fields[f][1]
+            out += f"let {self.coqvar(name + '.' + f)} := {self.coerce(c, ty, fty, f)} in\n"
+            env = self.bind(env, f"{name}.{f}", fty)
+        return out + go(env)
+
+    def struct_record(self, name, env, node):
+        sname = env[name][1]
+        rec, fields, _ = NI_STRUCTS[sname]
+        items = []
+        for f, (rf, fty) in fields.items():
+            key = f"{name}.{f}"
+            if key not in env:
+                self.refuse(node, f"{sname}.{f} is not assigned on every path")
+            items.append(f"{rf} := {env[key][1]}")
+        return "{| " + "; ".join(items) + " |}", rec
+
+    def ret(self, v, env):
+        if isinstance(v, ast.Name) and env.get(v.id, (None,))[0] == "struct":
+            rec, ty = self.struct_record(v.id, env, v)
+            self.ret_type = ty
+            return f"Some {rec}" if self.partial else rec
+        self.refuse(v, "return value")
+
+    def children_comp(self, name, v, env, go, s):
+        g = v.generators
+        ok = len(g) == 1 and isinstance(g[0].target, ast.Name) and not g[0].is_async and isinstance(v.key, ast.Name) and v.key.id == g[0].target.id
+        if ok:
+            kname = g[0].target.id
+            ok = (ast.unparse(g[0].iter) == "network_info.children" and env.get("network_info", (None,))[0] == "rec"
+                  and _dump(ast.unparse(v.value)) == _dump(f"network_info.nwk_addresses[{kname}]"))
+        if not ok:
+            self.refuse(s, "dict comprehension")
+        tests = [ast.unparse(i) for i in g[0].ifs]
+        if tests != [f"{kname} in network_info.nwk_addresses"]:
+            self.refuse(s, "the comprehension reads nwk_addresses[k] (KeyError when absent) without the filter `k in nwk_addresses`")
+        ni = env["network_info"][1]
+        self.note("a child whose address occurs twice in network_info.children gives one dict entry (children are taken to be distinct)")
+        return (f"let {name} := flat_map (fun {kname} => if py_in_nwk_addresses {kname} then\n"
+                f"    match py_nwk_address {kname} with Some nwk_v => [(py_child_ieee {kname}, nwk_v)] | None => [] end else []) (children {ni}) in\n"
+                + go(self.bind(env, name, "kids")))
+
+    # ---- if ------------------------------------------------------------------------------------------------------------
+    def do_if(self, s, env, go):
+        test = s.test
+        pre = ""
+        # `x is not None` / `x is None` on an optional attribute: a match that names the value
+        opt = None
+        if isinstance(test, ast.Compare) and len(test.ops) == 1 and isinstance(test.ops[0], (ast.Is, ast.IsNot)) \
+                and isinstance(test.comparators[0], ast.Constant) and test.comparators[0].value is None:
+            c, ty = self.ex(test.left, env)
+            if ty not in ("optN", "optbytes"):
+                self.refuse(test, f"`is None` on a value of type {ty}")
+            opt = (c, ty[3:], ast.unparse(test.left), isinstance(test.ops[0], ast.IsNot))
+        else:
+            aw, neg = test, False
+            if isinstance(aw, ast.UnaryOp) and isinstance(aw.op, ast.Not) and isinstance(aw.operand, ast.Await):
+                aw, neg = aw.operand, True
+            if isinstance(aw, ast.Await):
+                if self.mode != "script":
+                    self.refuse(test)
+                call = aw.value
+                a = self.ezsp_attr(call.func, env) if isinstance(call, ast.Call) else None
+                if a not in NI_ORACLES or call.args or call.keywords:
+                    self.refuse(test, "an awaited test other than the two EUI64 capability questions")
+                step, oracle = NI_ORACLES[a]
+                pre = f"let eff := eff ++ [{step}] in\n"
+                env = self.touch(env, "eff")
+                cond = f"(negb {oracle})" if neg else oracle
+            else:
+                for n in ast.walk(test):
+                    if isinstance(n, ast.Await):
+                        self.refuse(test, "an await inside a compound test (the step would be conditional on short-circuiting)")
+                cond = self.truth(test, env)
+
+        def branch(body, extra, tail):
+            e0 = dict(env)
+            e0["\0assigned"] = ()
+            e0.update(extra)
+            self.depth += 1
+            try:
+                got = {}
+
+                def kk(e1):
+                    got["env"] = e1
+                    return tail(e1) if tail else "tt"
+                txt = self.seq(list(body), e0, kk)
+            finally:
+                self.depth -= 1
+            return txt, got["env"]
+
+        some_extra = {}
+        if opt:
+            vname = _ni_ident(opt[2]) + "_v"
+            some_extra = {"=" + opt[2]: ("val", vname, opt[1])}
+        then_extra, else_extra = (some_extra, {}) if (not opt or opt[3]) else ({}, some_extra)
+        r0 = self.raises
+        _, e1 = branch(s.body, then_extra, None)
+        _, e2 = branch(s.orelse, else_extra, None)
+        raising = self.raises > r0
+        self.raises = r0
+        # joined environment and the variables handed on
+        keys = []
+        for e in (e1, e2):
+            for k2 in e["\0assigned"]:
+                if k2 not in keys:
+                    keys.append(k2)
+        joined = {}
+        for k2 in set(e1) | set(e2):
+            if k2.startswith("\0") or k2.startswith("="):
+                continue
+            if k2 in e1 and k2 in e2 and e1[k2] == e2[k2]:
+                joined[k2] = e1[k2]
+            elif k2 in e1 and k2 in e2 and e1[k2][0] == "ss" and e2[k2][0] == "ss":
+                joined[k2] = ("ss", e1[k2][1] and e2[k2][1])
+        keys = [k2 for k2 in keys if k2 == "eff" or k2 in joined]
+        joined["\0assigned"] = env.get("\0assigned", ())
+        for k2 in keys:
+            joined = self.touch(joined, k2)
+        if not keys:
+            if raising:
+                self.refuse(s, "a branch that can raise but assigns nothing")
+            if opt is None:
+                pass            # only log calls inside: the test has been translated, i.e. it is pure
+            self.note(f"`if {ast.unparse(test)[:80]}`: nothing but log calls inside, dropped")
+            return pre + go(joined)
+        tup = self.tuple_of(joined, keys)
+        wrap = (lambda e: f"Some {tup}") if raising else (lambda e: tup)
+        t1, _ = branch(s.body, then_extra, wrap)
+        t2, _ = branch(s.orelse, else_extra, wrap)
+        if opt:
+            some_b, none_b = (t1, t2) if opt[3] else (t2, t1)
+            head = f"match {opt[0]} with\n| Some {vname} =>\n{textwrap.indent(some_b, '    ')}\n| None =>\n{textwrap.indent(none_b, '    ')}\nend"
+        else:
+            head = f"if {cond} then\n{textwrap.indent(t1, '    ')}\n  else\n{textwrap.indent(t2, '    ')}"
+        pat = tup if len(keys) == 1 else "'" + tup
+        if raising:
+            if self.mode != "pure":
+                self.refuse(s, "an operation that can raise inside a branch of the coroutine")
+            return (pre + f"match (\n  {head})\nwith\n| None => None\n| Some {tup} =>\n" + go(joined) + "\nend")
+        return pre + f"let {pat} :=\n  {head} in\n" + go(joined)
+
+    # ---- awaits of the coroutine -----------------------------------------------------------------------------------------
+    def do_await(self, call, target, env, go, s):
+        if self.mode != "script" or not isinstance(call, ast.Call):
+            self.refuse(s, "await")
+        f = ast.unparse(call.func)
+        kw = {k.arg: k.value for k in call.keywords}
+        if None in kw:
+            self.refuse(s, "** arguments")
+
+        def step(term, env2=None):
+            return f"let eff := eff ++ [{term}] in\n" + go(self.touch(env2 or env, "eff"))
+
+        def no_target():
+            if target is not None:
+                self.refuse(s, "the result of this await is not modelled")
+        own = {"self.reset_network_info": "AResetNetworkInfo", "self._reset": "AReset", "self._ensure_network_running": "AEnsureRunning"}
+        if f in own and "self" in env:
+            no_target()
+            if call.args or kw:
+                self.refuse(s, "arguments")
+            return step(own[f])
+        a = self.ezsp_attr(call.func, env)
+        if a is None:
+            self.refuse(s, "await of something other than a method of self / the EZSP object")
+        if a == "getEui64":
+            if call.args or kw or not (isinstance(target, ast.Tuple) and len(target.elts) == 1 and isinstance(target.elts[0], ast.Name)):
+                self.refuse(s, "getEui64")
+            name = target.elts[0].id
+            return f"let eff := eff ++ [AGetEui64] in\nlet {name} := Some ncp_eui64 in\n" + go(self.touch(self.bind(env, name, "eui"), "eff"))
+        if a == "write_custom_eui64":
+            no_target()
+            if len(call.args) != 1 or set(kw) - {"burn_into_userdata"}:
+                self.refuse(s, "arguments of write_custom_eui64")
+            c, ty = self.ex(call.args[0], env)
+            burn = "false"
+            if "burn_into_userdata" in kw:
+                burn, bty = self.ex(kw["burn_into_userdata"], env)
+                if bty != "bool":
+                    self.refuse(s, "burn_into_userdata")
+            else:
+                import bellows.ezsp
+                import inspect as _i
+                if _i.signature(bellows.ezsp.EZSP.write_custom_eui64).parameters["burn_into_userdata"].default is not False:
+                    self.refuse(s, "default of burn_into_userdata")
+            if ty != "eui":
+                self.refuse(s, "address argument")
+            return step(f"AWriteCustomEui64 {c} {burn}")
+        if a in ("write_nwk_frame_counter", "write_aps_frame_counter"):
+            no_target()
+            if len(call.args) != 1 or kw:
+                self.refuse(s, "arguments")
+            c, ty = self.ex(call.args[0], env)
+            if ty != "N":
+                self.refuse(s, "argument")
+            return step(("AWriteNwkFc " if a == "write_nwk_frame_counter" else "AWriteApsFc ") + c)
+        if a == "setInitialSecurityState":
+            if call.args or set(kw) != {"state"}:
+                self.refuse(s, "arguments of setInitialSecurityState")
+            c, ty = self.ex(kw["state"], env)
+            if ty != "sec":
+                self.refuse(s, "state argument")
+            if target is not None and not (isinstance(target, ast.Tuple) and all(isinstance(x, ast.Name) for x in target.elts)):
+                self.refuse(s, "target")
+            env2 = dict(env)
+            for x in (target.elts if target is not None else ()):
+                env2[x.id] = ("answer",)
+            return step(f"ASetInitialSecurityState {c}", env2)
+        if a in ("write_link_keys", "write_child_data"):
+            no_target()
+            if len(call.args) != 1 or kw:
+                self.refuse(s, "arguments")
+            c, ty = self.ex(call.args[0], env)
+            if ty != ("keys" if a == "write_link_keys" else "kids"):
+                self.refuse(s, "argument")
+            return step(("AWriteLinkKeys " if a == "write_link_keys" else "AWriteChildData ") + c)
+        if a == "formNetwork":
+            no_target()
+            if call.args or set(kw) != {"parameters"} or not isinstance(kw["parameters"], ast.Name) \
+                    or env.get(kw["parameters"].id, (None,))[0] != "struct" or env[kw["parameters"].id][1] != "EmberNetworkParameters":
+                self.refuse(s, "arguments of formNetwork")
+            rec, _ = self.struct_record(kw["parameters"].id, env, s)
+            return step(f"AFormNetwork {rec}")
+        self.refuse(s, "await with no modelled step")
+
+
+def _ni_ident(src: str) -> str:
+    return __import__("re").sub(r"\W+", "_", src).strip("_")
+
+
+# ---- write accessors of the protocol handlers: lists of commands -------------------------------------------------------
+class NiAccTr:
+    def __init__(self, where, ns):
+        self.where, self.ns = where, ns
+        self.tr = NiTr(where, ns, "pure")
+
+    def refuse(self, node, why="unsupported construct"):
+        src = ast.unparse(node) if isinstance(node, ast.AST) else str(node)
+        raise GenError(self.where, f"{why}: `{src[:120]}`")
+
+    def body(self, stmts, env):
+        """a Gallina list expression: the commands of the statements, in order"""
+        parts = []
+        for s in ThTr.clean(stmts):
+            if isinstance(s, ast.Assert):
+                self.tr.pure(s.test, env)
+                parts.append("[CGuard]")
+                continue
+            if isinstance(s, ast.If):
+                # only `if <pure test on an answer>: LOGGER...`
+                if ThTr.clean(s.body) or ThTr.clean(s.orelse):
+                    self.refuse(s, "a branch with statements")
+                self.tr.pure(s.test, env)
+                continue
+            if isinstance(s, ast.For):
+                parts.append(self.loop(s, env))
+                continue
+            call = None
+            if isinstance(s, ast.Expr) and isinstance(s.value, ast.Await):
+                call = s.value.value
+            elif isinstance(s, ast.Assign) and len(s.targets) == 1 and isinstance(s.value, ast.Await) and isinstance(s.targets[0], ast.Tuple) \
+                    and all(isinstance(x, ast.Name) for x in s.targets[0].elts):
+                call = s.value.value
+                env = dict(env)
+                for x in s.targets[0].elts:
+                    env[x.id] = ("answer",)
+            if call is None:
+                self.refuse(s)
+            parts.append("[" + self.command(call, env) + "]")
+        if not parts:
+            return "[]"
+        return " ++ ".join(parts)
+
+    def command(self, call, env):
+        if not (isinstance(call, ast.Call) and isinstance(call.func, ast.Attribute) and isinstance(call.func.value, ast.Name) and call.func.value.id == "self"):
+            self.refuse(call, "await of something other than a command of self")
+        name = call.func.attr
+        kw = {k.arg: k.value for k in call.keywords}
+        if call.args or None in kw:
+            self.refuse(call, "positional arguments")
+
+        def arg(k, ty):
+            c, t = self.tr.ex(kw[k], env)
+            if t != ty:
+                self.refuse(call, f"{k}= of type {t}")
+            return c
+        if name == "networkState" and not kw:
+            return 'CQuery "networkState"%string'
+        if name == "setValue" and set(kw) == {"valueId", "value"}:
+            v = kw["value"]
+            # t.uint32_t(x).serialize()
+            ok = isinstance(v, ast.Call) and isinstance(v.func, ast.Attribute) and v.func.attr == "serialize" and not v.args and not v.keywords \
+                and isinstance(v.func.value, ast.Call) and getattr(_resolve(self.ns, v.func.value.func), "__name__", "") == "uint32_t" \
+                and len(v.func.value.args) == 1 and not v.func.value.keywords
+            if not ok:
+                self.refuse(call, "value= is not t.uint32_t(<number>).serialize()")
+            c, t = self.tr.ex(v.func.value.args[0], env)
+            if t != "N":
+                self.refuse(call, "value")
+            return f"CSetValue {arg('valueId', 'N')} {c}"
+        if name == "addOrUpdateKeyTableEntry" and set(kw) == {"address", "linkKey", "keyData"}:
+            return f"CAddOrUpdateKeyTableEntry {arg('address', 'bytes')} {arg('linkKey', 'bool')} {arg('keyData', 'bytes')}"
+        if name == "importLinkKey" and set(kw) == {"index", "address", "key"}:
+            return f"CImportLinkKey {arg('index', 'N')} {arg('address', 'bytes')} {arg('key', 'bytes')}"
+        if name == "setChildData" and set(kw) == {"index", "child_data"}:
+            cd = kw["child_data"]
+            cls = _resolve(self.ns, cd.func) if isinstance(cd, ast.Call) else None
+            if not (isinstance(cls, type) and cls.__name__.startswith("EmberChildData")) or cd.args:
+                self.refuse(call, "child_data= is not an EmberChildData..(..) construction")
+            ckw = {k.arg: k.value for k in cd.keywords}
+            if not {"eui64", "id"} <= set(ckw):
+                self.refuse(call, "child data without eui64= / id=")
+            rest = []
+            for k2, v2 in ckw.items():
+                if k2 in ("eui64", "id"):
+                    continue
+                self.tr.pure(v2, env)
+                rest.append(f"{k2}={ast.unparse(v2)}")
+            self.tr.note(f"{cls.__name__}: fields other than eui64 / id are not part of the model ({', '.join(rest)})")
+            e, te = self.tr.ex(ckw["eui64"], env)
+            i, ti = self.tr.ex(ckw["id"], env)
+            if te != "bytes" or ti != "N":
+                self.refuse(call, "child data")
+            return f"CSetChildData {arg('index', 'N')} {e} {i}"
+        self.refuse(call, "a command this translator has no constructor for")
+
+    def loop(self, s, env):
+        if s.orelse:
+            self.refuse(s, "for / else")
+        it, tg = s.iter, s.target
+        env = dict(env)
+
+        def elem(name, kind):
+            if kind == "keys":
+                env[name] = ("rec", name, "linkkey")
+            else:
+                self.refuse(s, "loop variable")
+        src_it = ast.unparse(it)
+        # for key in keys
+        if isinstance(it, ast.Name) and env.get(it.id, (None,))[:1] == ("val",) and env[it.id][2] == "keys" and isinstance(tg, ast.Name):
+            elem(tg.id, "keys")
+            return f"flat_map (fun {tg.id} => {self.body(s.body, env)}) {env[it.id][1]}"
+        # for index, key in enumerate(keys)
+        if isinstance(it, ast.Call) and ast.unparse(it.func) == "enumerate" and len(it.args) == 1 and not it.keywords and isinstance(tg, ast.Tuple) \
+                and len(tg.elts) == 2 and isinstance(tg.elts[0], ast.Name):
+            idx, a = tg.elts[0].id, it.args[0]
+            env[idx] = ("val", idx, "N")
+            if isinstance(a, ast.Name) and env.get(a.id, (None,))[:1] == ("val",) and env[a.id][2] == "keys" and isinstance(tg.elts[1], ast.Name):
+                elem(tg.elts[1].id, "keys")
+                return f"flat_map (fun '({idx}, {tg.elts[1].id}) => {self.body(s.body, env)}) (enumerate 0 {env[a.id][1]})"
+            # for index, (eui64, nwk) in enumerate(children.items())
+            if isinstance(a, ast.Call) and isinstance(a.func, ast.Attribute) and a.func.attr == "items" and not a.args and not a.keywords \
+                    and isinstance(a.func.value, ast.Name) and env.get(a.func.value.id, (None,))[:1] == ("val",) and env[a.func.value.id][2] == "kids" \
+                    and isinstance(tg.elts[1], ast.Tuple) and len(tg.elts[1].elts) == 2 and all(isinstance(x, ast.Name) for x in tg.elts[1].elts):
+                k2, v2 = (x.id for x in tg.elts[1].elts)
+                env[k2] = ("val", k2, "bytes")
+                env[v2] = ("val", v2, "N")
+                return f"flat_map (fun '({idx}, ({k2}, {v2})) => {self.body(s.body, env)}) (enumerate 0 {env[a.func.value.id][1]})"
+        self.refuse(s, f"loop over {src_it}")
+
+
+NI_ACCESSORS = (("write_nwk_frame_counter", "frame_counter", "N", "N"), ("write_aps_frame_counter", "frame_counter", "N", "N"),
+                ("write_link_keys", "keys", "keys", "list (bytes * bytes)"), ("write_child_data", "children", "kids", "list (bytes * N)"))
+
+
+def _ni_calls(C, name, ns):
+    """a straight-line coroutine of the application as the list of the calls it makes"""
+    node = _StripLogs().visit(_fn_ast_async(C.__dict__[name]))
+    where = f"ControllerApplication.{name} (source)"
+    if [a.arg for a in node.args.args] != ["self"] or node.args.kwonlyargs or node.args.vararg or node.args.kwarg:
+        raise GenError(where, "parameters")
+
+    def one(s):
+        v = s.value if isinstance(s, ast.Expr) else None
+        if isinstance(v, ast.Await):
+            v = v.value
+        if isinstance(v, ast.Call) and isinstance(v.func, ast.Attribute):
+            tgt = ast.unparse(v.func.value)
+            if tgt in ("self", "self._ezsp") and '"' not in v.func.attr:
+                for a in list(v.args) + [k.value for k in v.keywords]:
+                    for n in ast.walk(a):
+                        if isinstance(n, (ast.Await, ast.Call)):
+                            raise GenError(where, f"a call inside an argument: `{ast.unparse(s)[:100]}`")
+                return f'RCall "{tgt}"%string "{v.func.attr}"%string'
+        if isinstance(s, ast.Try) and len(s.handlers) == 1 and not s.finalbody and s.handlers[0].name is None and s.handlers[0].type is not None \
+                and not ThTr.clean(s.handlers[0].body):
+            exn = _resolve(ns, s.handlers[0].type)
+            if not (isinstance(exn, type) and issubclass(exn, BaseException)):
+                raise GenError(where, f"except clause `{ast.unparse(s.handlers[0].type)}`")
+            return f'RTryElse {lst(s.body)} "{exn.__name__}"%string {lst(s.orelse)}'
+        raise GenError(where, f"unsupported construct: `{ast.unparse(s)[:100]}`")
+
+    def lst(body):
+        return "[" + "; ".join(one(s) for s in ThTr.clean(body)) + "]"
+    return lst(node.body)
+
+
+def gen_netinfo_fn() -> str:
+    import dataclasses  # noqa: F401
+    import bellows.ezsp as E
+    import bellows.types as bt
+    import bellows.zigbee.application as A
+    import bellows.zigbee.util as U
+    import zigpy.types as zt
+    out = [NETINFO_PRELUDE]
+    if bt.EUI64 is not zt.EUI64 or bt.KeyData is not zt.KeyData:
+        raise GenError("bellows.types", "EUI64 / KeyData are not zigpy's")
+
+    def comment(tr):
+        return "".join(f"   - {_cmt(n)}\n" for n in tr.notes)
+
+    # ---- util.zha_security ---------------------------------------------------------------------------------------------
+    ns = vars(U)
+    node = _StripLogs().visit(_fn_ast(U.zha_security))
+    a = node.args
+    if a.args or a.vararg or a.kwarg or [x.arg for x in a.kwonlyargs] != ["network_info", "use_hashed_tclk"] or any(d is not None for d in a.kw_defaults):
+        raise GenError("util.zha_security", "parameters")
+    for attempt in (False, True):
+        tr = NiTr("util.zha_security (source)", ns, "pure")
+        tr.partial = attempt
+        env = {"network_info": ("rec", "network_info", "netinfo"), "use_hashed_tclk": ("val", "use_hashed_tclk", "bool")}
+        term = tr.seq(list(node.body), env, lambda e: tr.refuse("zha_security", "control reaches the end without a return"))
+        if (tr.raises > 0) == attempt:
+            break
+    if tr.ret_type != "secstate":
+        raise GenError("util.zha_security", "does not return the security state")
+    out.append("(* from the source of util.zha_security; None: the function raises (KeyError)\n" + comment(tr) + "*)\n"
+               f"Definition py_zha_security (network_info : netinfo) (use_hashed_tclk : bool) : {'option secstate' if tr.partial else 'secstate'} :=\n"
+               + textwrap.indent(term, "  ") + ".\n\n")
+    zha_partial = tr.partial
+
+    # ---- the two key conversions ---------------------------------------------------------------------------------------
+    for fname, pname, rect, coqt, want in (("ezsp_key_to_zigpy_key", "key", "ekey", "py_ezsp_key", "py_zigpy_key"),
+                                           ("zigpy_key_to_ezsp_key", "zigpy_key", "zkey", "py_zigpy_key", "py_ezsp_key")):
+        node = _StripLogs().visit(_fn_ast(getattr(U, fname)))
+        a = node.args
+        if [x.arg for x in a.args] != [pname] or a.vararg or a.kwarg or a.kwonlyargs:
+            raise GenError(f"util.{fname}", "parameters")
+        tr = NiTr(f"util.{fname} (source)", ns, "pure")
+        tr.partial = False
+        term = tr.seq(list(node.body), {pname: ("rec", pname, rect)}, lambda e: tr.refuse(fname, "control reaches the end without a return"))
+        if tr.raises or tr.ret_type != want:
+            raise GenError(f"util.{fname}", "raising operation / result type")
+        out.append(f"(* from the source of util.{fname}\n" + comment(tr) + "*)\n"
+                   f"Definition py_{fname} ({pname} : {coqt}) : {want} :=\n" + textwrap.indent(term, "  ") + ".\n\n")
+
+    # ---- write accessors, per class; which class serves which protocol version --------------------------------------------
+    out.append("(* value ids of the two frame counters, from the live enum *)\n"
+               f"Definition VALUE_NWK_FRAME_COUNTER : N := {int(bt.EzspValueId.VALUE_NWK_FRAME_COUNTER)}.\n"
+               f"Definition VALUE_APS_FRAME_COUNTER : N := {int(bt.EzspValueId.VALUE_APS_FRAME_COUNTER)}.\n\n")
+    versions = sorted(E.EZSP._BY_VERSION)
+    for v in versions:
+        if E.EZSP._BY_VERSION[v].VERSION != v:
+            raise GenError("EZSP._BY_VERSION", f"key {v} maps to a class of VERSION {E.EZSP._BY_VERSION[v].VERSION}")
+    done = {}
+    for acc, pname, pty, coqt in NI_ACCESSORS:
+        table = []
+        for v in versions:
+            cls = E.EZSP._BY_VERSION[v]
+            owner = next(c for c in cls.__mro__ if acc in c.__dict__)
+            fn = owner.__dict__[acc]
+            if getattr(fn, "__isabstractmethod__", False):
+                raise GenError(f"{cls.__name__}.{acc}", "abstract")
+            cname = f"py_{owner.__name__}_{acc}"
+            if (owner, acc) not in done:
+                node = _StripLogs().visit(_fn_ast_async(fn))
+                ar = node.args
+                if [x.arg for x in ar.args] != ["self", pname] or ar.vararg or ar.kwarg or ar.kwonlyargs:
+                    raise GenError(f"{owner.__name__}.{acc}", "parameters")
+                at = NiAccTr(f"{owner.__name__}.{acc} (source)", vars(inspect.getmodule(owner)))
+                term = at.body(node.body, {pname: ("val", _ni_name(pname), pty)})
+                done[(owner, acc)] = cname
+                out.append(f"(* from the source of {owner.__name__}.{acc}\n" + comment(at.tr) + "*)\n"
+                           f"Definition {cname} ({_ni_name(pname)} : {coqt}) : list py_cmd :=\n  {term}.\n\n")
+            table.append((v, cname))
+        body = "".join(f"if v =? {v} then {c} {_ni_name(pname)} else " for v, c in table) + "[]"
+        out.append(f"(* <handler of protocol version v>.{acc}: the method the class registered for v in EZSP._BY_VERSION inherits *)\n"
+                   f"Definition py_{acc} (v : N) ({_ni_name(pname)} : {coqt}) : list py_cmd :=\n  {body}.\n\n")
+    out.append("Definition PY_VERSIONS : list N := [" + "; ".join(str(v) for v in versions) + "].\n\n")
+
+    # ---- write_network_info --------------------------------------------------------------------------------------------
+    C = A.ControllerApplication
+    ns = vars(A)
+    node = _StripLogs().visit(_fn_ast_async(C.__dict__["write_network_info"]))
+    a = node.args
+    if [x.arg for x in a.args] != ["self"] or a.vararg or a.kwarg or [x.arg for x in a.kwonlyargs] != ["network_info", "node_info"] \
+            or any(d is not None for d in a.kw_defaults):
+        raise GenError("ControllerApplication.write_network_info", "parameters")
+    if not zha_partial:
+        raise GenError("util.zha_security", "expected to be partial (KeyError on an absent hashed key); write_network_info matches on its result")
+    # EZSP.ezsp_version is the version of the protocol handler in use (GenBringupFn translates the property); attributes
+    # that are not commands are looked up on the handler
+    tr = NiTr("ControllerApplication.write_network_info (source)", ns, "script")
+    tr.partial = False
+    env = {"self": ("self",), "network_info": ("rec", "network_info", "netinfo"), "node_info": ("node",),
+           "node_info.ieee": ("val", "node_ieee", "eui")}
+    term = tr.seq(list(node.body), env, lambda e: f"(eff, WnDone, {e['network_info'][1]}, node_ieee)")
+    out.append("(* from the source of ControllerApplication.write_network_info.  Arguments: the protocol version in use, the two\n"
+               "   arguments (node_info as its ieee), the address the NCP reports, the answers to the two capability questions, the\n"
+               "   truth value of the other stack-specific keys, the 16 random bytes.  Result: the steps awaited in order, how the\n"
+               "   coroutine ends, and the two argument objects as the caller finds them afterwards (they are updated in place)\n"
+               + comment(tr) + "*)\n"
+               "Definition py_write_network_info (ezsp_version : N) (network_info : netinfo) (node_ieee : py_eui) (ncp_eui64 : bytes)\n"
+               "    (can_rewrite can_burn : bool) (stack_specific_flag : string -> bool) (urandom : bytes)\n"
+               "  : list py_app_step * py_wn_outcome * netinfo * py_eui :=\n  let eff := @nil py_app_step in\n"
+               + textwrap.indent(term, "  ") + ".\n\n")
+    for name in ("_reset", "reset_network_info"):
+        out.append(f"(* from the source of ControllerApplication.{name}: the calls it makes, in order *)\n"
+                   f"Definition py_calls_{name.lstrip('_')} : list py_call :=\n  {_ni_calls(C, name, ns)}.\n\n")
+    return "".join(out)
+
+
+
+
+# ==================================================================================================
+# Multicast.__init__ / _initialize / startup (bellows/multicast.py): the rest of the class next to McTr's subscribe /
+# unsubscribe.  Coroutines with awaits inside `for` loops: every loop is a fold_left of one emitted step function over
+# (state variables, Running | Raised); the NCP's answers are oracle arguments (None = the awaited command raised)
+# ==================================================================================================
+MI_METHODS = ("__init__", "_initialize", "startup", "subscribe", "unsubscribe")
+MI_TYPES = {"subs": "list (N * N)", "avail": "list N", "k": "N", "ws": "list (N * N * N)"}
+MI_ORACLES = {"cfg": "(cfg : N -> option (N * N))", "rd": "(rd : N -> option (N * (N * N)))", "o": "(o : N -> N * answer)"}
+MI_ENTRY_FIELDS = {"multicastId": "id", "endpoint": "ep"}
+
+
+class MiTr:
+    """Statement translator in continuation style (the rest of a block is duplicated into both branches of an `if`).
+
+    State variables: subs (self._multicast, association list multicastId -> index; the entry object stored next to the
+    index is not represented), avail (self._available), and for a coroutine that awaits self.subscribe also k (number of
+    subscribe calls made so far = argument of the oracle `o`) and ws (table writes issued, in order).
+    Kinds of locals: "N" (a number), "entry" (a table entry read from the NCP: two variables <name>_id / <name>_ep),
+    "ep" (an endpoint object, represented by the iteration order of its member_of), "coordinator" (the items of
+    coordinator.endpoints in order: (endpoint id, endpoint))."""
+
+    def __init__(self, where, stem, ns, statevars, callees):
+        self.where, self.stem, self.ns, self.sv = where, stem, ns, list(statevars)
+        self.callees = callees            # name of an awaited method of self -> oracles of its emitted function
+        self.defs = []                    # emitted loop step functions, innermost first
+        self.nloops = 0
+        self.uses = [set()]               # oracles used, one set per enclosing loop body (innermost last)
+        self.consts = {}
+        self.skipped = []
+
+    # ---- helpers
+    def refuse(self, node, why="unsupported construct"):
+        txt = ast.unparse(node) if isinstance(node, ast.AST) else str(node)
+        raise GenError(self.where, f"{why}: `{txt[:100]}`")
+
+    def use(self, oracle):
+        for u in self.uses:
+            u.add(oracle)
+
+    def tuple_ty(self, ctx):
+        return " * ".join([MI_TYPES[v] for v in self.sv] + ["py_ctl" if ctx == "loop" else "ret"])
+
+    def leaf(self, ctx, what):
+        """what: 'none' (return None / end of the coroutine), 'raise' (an awaited call raised), 'next' (end of a loop body)"""
+        last = {("top", "none"): "py_none", ("top", "raise"): "RRaised", ("loop", "next"): "Running", ("loop", "raise"): "Raised"}[(ctx, what)]
+        return "(" + ", ".join(self.sv + [last]) + ")"
+
+    @staticmethod
+    def is_self_attr(node, attr):
+        return isinstance(node, ast.Attribute) and node.attr == attr and isinstance(node.value, ast.Name) and node.value.id == "self"
+
+    def binders(self, name, kind):
+        if kind == "N":
+            return [(name, "N")]
+        if kind == "entry":
+            return [(f"{name}_{s}", "N") for s in MI_ENTRY_FIELDS.values()]
+        if kind == "ep":
+            return [(name, "list N")]
+        if kind == "coordinator":
+            return [(name, "list (N * list N)")]
+        raise GenError(self.where, f"local `{name}` of kind {kind} cannot be passed into a loop body")
+
+    # ---- expressions: (term, "N" | "bool")
+    def expr(self, e, env):
+        if isinstance(e, ast.Constant) and type(e.value) is int and e.value >= 0:
+            return str(e.value), "N"
+        if isinstance(e, ast.Name):
+            if env.get(e.id) == "N":
+                return e.id, "N"
+            self.refuse(e, "name is not a number bound on every path to this point (loop-carried locals are not supported)")
+        if isinstance(e, ast.Attribute) and isinstance(e.value, ast.Name) and env.get(e.value.id) == "entry":
+            if e.attr not in MI_ENTRY_FIELDS:
+                self.refuse(e, "field of the table entry")
+            return f"{e.value.id}_{MI_ENTRY_FIELDS[e.attr]}", "N"
+        if isinstance(e, ast.UnaryOp) and isinstance(e.op, ast.Not):
+            return f"negb ({self.test(e.operand, env)})", "bool"
+        if isinstance(e, ast.BoolOp):
+            op = " && " if isinstance(e.op, ast.And) else " || "
+            return op.join(f"({self.test(v, env)})" for v in e.values), "bool"
+        if isinstance(e, ast.Compare):
+            return self.compare(e, env), "bool"
+        self.refuse(e, "expression")
+
+    def test(self, e, env):
+        term, ty = self.expr(e, env)
+        return term if ty == "bool" else f"negb ({term} =? 0)"       # truth value of an int
+
+    def compare(self, e, env):
+        T = self.ns["t"]
+        # t.sl_Status.from_ember_status(x) ==/!= t.sl_Status.OK  (from_ember_status itself is pinned: Status.normalise)
+        if len(e.ops) == 1 and isinstance(e.left, ast.Call) and _resolve(self.ns, e.left.func) == T.sl_Status.from_ember_status:
+            if len(e.left.args) != 1 or e.left.keywords or _resolve(self.ns, e.comparators[0]) is not T.sl_Status.OK \
+                    or not isinstance(e.ops[0], (ast.Eq, ast.NotEq)):
+                self.refuse(e, "status test")
+            x, ty = self.expr(e.left.args[0], env)
+            if ty != "N":
+                self.refuse(e, "status test")
+            return f"status_ok {x}" if isinstance(e.ops[0], ast.Eq) else f"negb (status_ok {x})"
+        terms = []
+        for v in [e.left] + list(e.comparators):
+            x, ty = self.expr(v, env)
+            if ty != "N":
+                self.refuse(e, "comparison of non-numbers")
+            terms.append(x if x.isalnum() or "_" in x and " " not in x else f"({x})")
+        parts = []
+        for a, op, b in zip(terms, e.ops, terms[1:]):
+            m = {ast.Eq: f"{a} =? {b}", ast.NotEq: f"negb ({a} =? {b})", ast.Lt: f"{a} <? {b}", ast.LtE: f"{a} <=? {b}",
+                 ast.Gt: f"{b} <? {a}", ast.GtE: f"{b} <=? {a}"}
+            if type(op) not in m:
+                self.refuse(e, "comparison operator")
+            parts.append(m[type(op)])
+        return parts[0] if len(parts) == 1 else " && ".join(f"({p})" for p in parts)
+
+    def number(self, e, env):
+        x, ty = self.expr(e, env)
+        if ty != "N":
+            self.refuse(e, "a number is expected")
+        return x if " " not in x else f"({x})"
+
+    # ---- awaited commands of self._ezsp
+    def ezsp_call(self, value, name):
+        if isinstance(value, ast.Await) and isinstance(value.value, ast.Call):
+            c = value.value
+            if isinstance(c.func, ast.Attribute) and c.func.attr == name and self.is_self_attr(c.func.value, "_ezsp") and not c.keywords and len(c.args) == 1:
+                return c.args[0]
+        return None
+
+    def self_call(self, value):
+        if isinstance(value, ast.Await) and isinstance(value.value, ast.Call):
+            c = value.value
+            if isinstance(c.func, ast.Attribute) and isinstance(c.func.value, ast.Name) and c.func.value.id == "self" and not c.keywords:
+                return c.func.attr, c.args
+        return None, None
+
+    # ---- statements
+    def stmts(self, body, env, ctx):
+        if not body:
+            return self.leaf(ctx, "next" if ctx == "loop" else "none")
+        s, rest = body[0], list(body[1:])
+        ind = lambda t, n=4: textwrap.indent(t, " " * n)
+        if isinstance(s, ast.Pass):
+            return self.stmts(rest, env, ctx)
+        if isinstance(s, ast.Return):
+            if ctx != "top":
+                self.refuse(s, "return inside a loop")
+            if s.value is not None and not (isinstance(s.value, ast.Constant) and s.value.value is None):
+                self.refuse(s, "return value")
+            return self.leaf(ctx, "none")
+        if isinstance(s, ast.Continue):
+            if ctx != "loop":
+                self.refuse(s)
+            return self.leaf(ctx, "next")
+        if isinstance(s, ast.If):
+            return (f"if {self.test(s.test, env)} then\n{ind(self.stmts(list(s.body) + rest, env, ctx), 2)}\nelse\n"
+                    f"{ind(self.stmts(list(s.orelse) + rest, env, ctx), 2)}")
+        if isinstance(s, ast.For):
+            return self.loop(s, rest, env, ctx)
+        if isinstance(s, ast.Assign) and len(s.targets) == 1:
+            tgt, val = s.targets[0], s.value
+            if self.is_self_attr(tgt, "_multicast"):
+                if not (isinstance(val, ast.Dict) and not val.keys) and ast.unparse(val) != "dict()":
+                    self.refuse(s, "self._multicast is an (initially empty) dict")
+                return "let subs := [] in\n" + self.stmts(rest, env, ctx)
+            if self.is_self_attr(tgt, "_available"):
+                if ast.unparse(val) != "set()":
+                    self.refuse(s, "self._available is an (initially empty) set")
+                return "let avail := [] in\n" + self.stmts(rest, env, ctx)
+            # self._multicast[<key>] = (<entry>, <index>)
+            if isinstance(tgt, ast.Subscript) and self.is_self_attr(tgt.value, "_multicast"):
+                if not (isinstance(val, ast.Tuple) and len(val.elts) == 2 and isinstance(val.elts[0], ast.Name)
+                        and env.get(val.elts[0].id) == "entry"):
+                    self.refuse(s, "the dict holds (entry read from the NCP, index)")
+                return (f"let subs := dict_set {self.number(tgt.slice, env)} {self.number(val.elts[1], env)} subs in\n"
+                        + self.stmts(rest, env, ctx))
+            # status, size = await self._ezsp.getConfigurationValue(<member of EzspConfigId>)
+            arg = self.ezsp_call(val, "getConfigurationValue")
+            if arg is not None:
+                names = self.pair(tgt, s)
+                member = _resolve(self.ns, arg)
+                if not isinstance(member, self.ns["t"].EzspConfigId):
+                    self.refuse(arg, "configuration id")
+                cname = "py_" + "_".join(ast.unparse(arg).split(".")[1:])
+                self.consts[cname] = int(member)
+                self.use("cfg")
+                env2 = {**env, names[0]: "N", names[1]: "N"}
+                return (f"match cfg {cname} with\n| None => {self.leaf(ctx, 'raise')}\n| Some ({names[0]}, {names[1]}) =>\n"
+                        f"{ind(self.stmts(rest, env2, ctx))}\nend")
+            # status, entry = await self._ezsp.getMulticastTableEntry(<index>)
+            arg = self.ezsp_call(val, "getMulticastTableEntry")
+            if arg is not None:
+                names = self.pair(tgt, s)
+                self.use("rd")
+                env2 = {k: v for k, v in env.items() if k not in names}
+                env2.update({names[0]: "N", names[1]: "entry"})
+                fields = ", ".join(f"{names[1]}_{f}" for f in MI_ENTRY_FIELDS.values())
+                return (f"match rd {self.number(arg, env)} with\n| None => {self.leaf(ctx, 'raise')}\n| Some ({names[0]}, ({fields})) =>\n"
+                        f"{ind(self.stmts(rest, env2, ctx))}\nend")
+            if isinstance(tgt, ast.Name) and tgt.id not in self.sv and tgt.id not in MI_ORACLES and not isinstance(val, ast.Await):
+                x, ty = self.expr(val, env)
+                if ty != "N":
+                    self.refuse(s, "local of another type than a number")
+                return f"let {tgt.id} := {x} in\n" + self.stmts(rest, {**env, tgt.id: "N"}, ctx)
+            self.refuse(s, "assignment")
+        if isinstance(s, ast.Expr):
+            v = s.value
+            # self._available.add(<index>)
+            if isinstance(v, ast.Call) and isinstance(v.func, ast.Attribute) and v.func.attr == "add" and self.is_self_attr(v.func.value, "_available") \
+                    and len(v.args) == 1 and not v.keywords:
+                return f"let avail := set_add {self.number(v.args[0], env)} avail in\n" + self.stmts(rest, env, ctx)
+            name, args = self.self_call(v)
+            if name is not None and name in self.callees:
+                for oname in self.callees[name]:
+                    self.use(oname)
+                if name == "_initialize" and not args:
+                    return (f"let '(subs, avail, r) := py_initialize subs avail cfg rd in\nmatch r with\n| RRaised => {self.leaf(ctx, 'raise')}\n"
+                            f"| RStatus _ =>\n{ind(self.stmts(rest, env, ctx))}\nend")
+                if name == "subscribe" and len(args) == 1 and "k" in self.sv:
+                    # the value the call returns is discarded; an exception leaves the coroutine (no try around it)
+                    return (f"let '(choice, a) := o k in\n"
+                            f"let '(subs, avail, r, w) := py_subscribe subs avail {self.number(args[0], env)} choice a in\n"
+                            f"let k := k + 1 in\nlet ws := ws ++ py_opt_list w in\n"
+                            f"match r with\n| RRaised => {self.leaf(ctx, 'raise')}\n| RStatus _ =>\n{ind(self.stmts(rest, env, ctx))}\nend")
+            self.refuse(s)
+        self.refuse(s)
+
+    def pair(self, tgt, s):
+        if not (isinstance(tgt, ast.Tuple) and len(tgt.elts) == 2 and all(isinstance(x, ast.Name) for x in tgt.elts)):
+            self.refuse(s, "the answer is unpacked into two names")
+        names = [x.id for x in tgt.elts]
+        if names[0] == names[1] or any(n in self.sv or n in MI_ORACLES or n in ("st", "c", "r", "w", "a", "choice", "item") for n in names):
+            self.refuse(s, "name clashes with a variable of the translation")
+        return names
+
+    # ---- for loops
+    def loop(self, s, rest, env, ctx):
+        if s.orelse:
+            self.refuse(s, "for ... else")
+        self.nloops += 1
+        fname = f"{self.stem}_loop{self.nloops}"
+        it = s.iter
+        # what is iterated, and what the target binds
+        if isinstance(it, ast.Call) and isinstance(it.func, ast.Name) and it.func.id == "range" and not it.keywords and len(it.args) in (1, 2):
+            lo = "0" if len(it.args) == 1 else self.number(it.args[0], env)
+            seq, elt_ty = f"py_range {lo} {self.number(it.args[-1], env)}", "N"
+            if not isinstance(s.target, ast.Name):
+                self.refuse(s.target, "loop target")
+            elt, unpack, bound = s.target.id, "", {s.target.id: "N"}
+        elif isinstance(it, ast.Call) and not it.args and not it.keywords and isinstance(it.func, ast.Attribute) and it.func.attr == "items" \
+                and isinstance(it.func.value, ast.Attribute) and it.func.value.attr == "endpoints" \
+                and isinstance(it.func.value.value, ast.Name) and env.get(it.func.value.value.id) == "coordinator":
+            if not (isinstance(s.target, ast.Tuple) and len(s.target.elts) == 2 and all(isinstance(x, ast.Name) for x in s.target.elts)):
+                self.refuse(s.target, "loop target over .items()")
+            a, b = (x.id for x in s.target.elts)
+            seq, elt_ty = it.func.value.value.id, "N * list N"
+            elt, unpack, bound = "item", f"let '({a}, {b}) := item in\n", {a: "N", b: "ep"}
+        elif isinstance(it, ast.Attribute) and it.attr == "member_of" and isinstance(it.value, ast.Name) and env.get(it.value.id) == "ep":
+            if not isinstance(s.target, ast.Name):
+                self.refuse(s.target, "loop target")
+            seq, elt_ty = it.value.id, "N"
+            elt, unpack, bound = s.target.id, "", {s.target.id: "N"}
+        else:
+            self.refuse(it, "iterable")
+        for n in bound:
+            if n in self.sv or n in MI_ORACLES or n in ("st", "c", "r", "w", "a", "choice", "item"):
+                self.refuse(s.target, "name clashes with a variable of the translation")
+        # locals of the enclosing scope: those the body (re)binds are not visible in it (no loop-carried locals), the others
+        # are loop invariant and passed as parameters when the body mentions them
+        stored = {n.id for x in s.body for n in ast.walk(x) if isinstance(n, ast.Name) and isinstance(n.ctx, ast.Store)} | set(bound)
+        loaded = [n.id for x in s.body for n in ast.walk(x) if isinstance(n, ast.Name) and isinstance(n.ctx, ast.Load)]
+        env_body = {k: v for k, v in env.items() if k not in stored}
+        inv = []
+        for n in loaded:
+            if n in env_body and n not in inv:
+                inv.append(n)
+        env_body.update(bound)
+        self.uses.append(set())
+        body = self.stmts(list(s.body), env_body, "loop")
+        used = self.uses.pop()
+        oracles = [o for o in MI_ORACLES if o in used]
+        params = [MI_ORACLES[o] for o in oracles] + [f"({x} : {ty})" for n in inv for x, ty in self.binders(n, env_body[n])]
+        args = oracles + [x for n in inv for x, _ in self.binders(n, env_body[n])]
+        ty = self.tuple_ty("loop")
+        pat = "(" + ", ".join(self.sv + ["c"]) + ")"
+        self.defs.append(
+            f"(* one iteration of `{_cmt(ast.unparse(s).splitlines()[0])}` of {self.where.split(' ')[0]} *)\n"
+            f"Definition {fname} {' '.join(params)}{' ' if params else ''}(st : {ty}) ({elt} : {elt_ty})\n  : {ty} :=\n"
+            f"  let '{pat} := st in\n  match c with\n  | Raised => st\n  | Running =>\n"
+            f"{textwrap.indent(unpack + body, '      ')}\n  end.\n\n")
+        env_after = {k: v for k, v in env.items() if k not in stored}
+        call = " ".join([fname] + args)
+        init = "(" + ", ".join(self.sv + ["Running"]) + ")"
+        return (f"let '{pat} := fold_left ({call}) ({seq}) {init} in\nmatch c with\n| Raised => {self.leaf(ctx, 'raise')}\n| Running =>\n"
+                f"{textwrap.indent(self.stmts(rest, env_after, ctx), '    ')}\nend")
+
+
+def gen_multicast_init_fn() -> str:
+    import bellows.multicast as M
+    ns = vars(M)
+    T = ns.get("t")
+    if T is None or not hasattr(T, "sl_Status") or not hasattr(T, "EzspConfigId"):
+        raise GenError("bellows.multicast", "the module does not import bellows.types as t")
+    # the class consists of the five methods translated here and by McTr (a further method could touch the two containers)
+    cls = ast.parse(textwrap.dedent(inspect.getsource(M.Multicast))).body[0]
+    names = []
+    for x in cls.body:
+        if isinstance(x, ast.Expr) and isinstance(x.value, ast.Constant) and isinstance(x.value.value, str):
+            continue
+        if not isinstance(x, (ast.FunctionDef, ast.AsyncFunctionDef)) or x.decorator_list:
+            raise GenError("Multicast", f"class-level statement `{ast.unparse(x)[:80]}`")
+        names.append(x.name)
+    if sorted(names) != sorted(MI_METHODS):
+        raise GenError("Multicast", f"methods {names}: expected exactly {list(MI_METHODS)}")
+    nodes = {x.name: _StripLogs().visit(x) for x in cls.body if isinstance(x, (ast.FunctionDef, ast.AsyncFunctionDef))}
+
+    def params(name, want, is_async):
+        node = nodes[name]
+        if isinstance(node, ast.AsyncFunctionDef) != is_async:
+            raise GenError(f"Multicast.{name}", "coroutine function expected" if is_async else "plain function expected")
+        a = node.args
+        got = [x.arg for x in a.args]
+        if got != ["self"] + want or a.vararg or a.kwarg or a.kwonlyargs or a.posonlyargs or a.defaults:
+            raise GenError(f"Multicast.{name}", f"parameters {got}")
+        return node
+
+    out = ["(* GENERATED by harness/pysrc.py from the SOURCE TEXT of bellows/multicast.py -- do not edit *)\n"
+           "From Coq Require Import NArith List Bool.\nImport ListNotations.\n"
+           "Require Import BV.gen.GenStatus BV.model.Status BV.model.Multicast BV.gen.GenMulticastFn.\nOpen Scope N_scope.\n\n"
+           "(* fixed vocabulary (prelude, not derived from the source) *)\n"
+           "(* a loop runs until an awaited call raises: the exception leaves the loop and the coroutine *)\n"
+           "Inductive py_ctl := Running | Raised.\n"
+           "(* range(lo, hi) *)\n"
+           "Definition py_range (lo hi : N) : list N := map N.of_nat (seq (N.to_nat lo) (N.to_nat hi - N.to_nat lo)).\n"
+           "(* a coroutine that returns None reports what the model's Init reports *)\n"
+           "Definition py_none : ret := RStatus 0.\n"
+           "Definition py_opt_list {A} (w : option A) : list A := match w with Some x => [x] | None => [] end.\n\n"
+           "(* state: subs = self._multicast as an association list multicastId -> index (the entry object stored with the index is\n"
+           "   not represented), avail = self._available.  Oracles (the NCP's answers; None = the awaited command raised):\n"
+           "   cfg id = (status, value) of getConfigurationValue(id); rd i = (status, (multicastId, endpoint)) of\n"
+           "   getMulticastTableEntry(i); o k = (the element set.pop() returns, the outcome of the table write) for the k-th\n"
+           "   subscribe call of one start-up.  Log calls are skipped. *)\n\n"]
+
+    # ---- __init__: the two containers
+    node = params("__init__", ["ezsp"], False)
+    tr = MiTr("Multicast.__init__ (source)", "py_init", ns, ["subs", "avail"], {})
+    lets, seen = [], set()
+    for s in node.body:
+        if isinstance(s, ast.Assign) and len(s.targets) == 1 and tr.is_self_attr(s.targets[0], "_ezsp") \
+                and isinstance(s.value, ast.Name) and s.value.id == "ezsp":
+            continue
+        if not (isinstance(s, ast.Assign) and len(s.targets) == 1 and any(tr.is_self_attr(s.targets[0], a) for a in ("_multicast", "_available"))):
+            tr.refuse(s, "only the creation of self._ezsp / self._multicast / self._available is expected")
+        seen.add(s.targets[0].attr)
+        lets.append(tr.stmts([s], {}, "top").rsplit("\n", 1)[0])
+    if seen != {"_multicast", "_available"}:
+        raise GenError("Multicast.__init__", f"creates {sorted(seen)}: both self._multicast and self._available are expected")
+    out.append("(* from the source of Multicast.__init__ (self._ezsp = ezsp skipped) *)\n"
+               "Definition py_init : list (N * N) * list N :=\n" + textwrap.indent("\n".join(lets), "  ") + "\n  (subs, avail).\n\n")
+
+    # ---- _initialize
+    node = params("_initialize", [], True)
+    tr = MiTr("Multicast._initialize (source)", "py_initialize", ns, ["subs", "avail"], {})
+    term = tr.stmts(list(node.body), {}, "top")
+    if tr.uses[0] != {"cfg", "rd"}:
+        raise GenError("Multicast._initialize", f"commands awaited: {sorted(tr.uses[0])} (the table-size read and the entry reads are expected)")
+    consts = dict(tr.consts)
+    body_init = ("".join(tr.defs) + "(* from the source of Multicast._initialize *)\n"
+                 f"Definition py_initialize (subs : list (N * N)) (avail : list N) {MI_ORACLES['cfg']} {MI_ORACLES['rd']}\n"
+                 f"  : {tr.tuple_ty('top')} :=\n{textwrap.indent(term, '  ')}.\n\n")
+
+    # ---- startup
+    node = params("startup", ["coordinator"], True)
+    tr = MiTr("Multicast.startup (source)", "py_startup", ns, ["subs", "avail", "k", "ws"],
+              {"_initialize": ["cfg", "rd"], "subscribe": ["o"]})
+    term = tr.stmts(list(node.body), {"coordinator": "coordinator"}, "top")
+    if tr.uses[0] != {"cfg", "rd", "o"}:
+        raise GenError("Multicast.startup", f"awaits {sorted(tr.uses[0])}: self._initialize() and self.subscribe(..) are expected")
+    consts.update(tr.consts)
+    for c, v in sorted(consts.items()):
+        out.append(f"(* member of bellows.types, value read from the live enum *)\nDefinition {c} : N := {v}.\n\n")
+    out.append(body_init)
+    out.append("".join(tr.defs) + "(* from the source of Multicast.startup; coordinator: the items of coordinator.endpoints in order, an endpoint being the\n"
+               "   iteration order of its member_of; result: dict, set, number of subscribe calls made, table writes issued, outcome *)\n"
+               f"Definition py_startup (subs : list (N * N)) (avail : list N) (coordinator : list (N * list N)) "
+               f"{MI_ORACLES['cfg']} {MI_ORACLES['rd']} {MI_ORACLES['o']}\n"
+               f"  : {tr.tuple_ty('top')} :=\n  let k := 0 in\n  let ws := @nil (N * N * N) in\n{textwrap.indent(term, '  ')}.\n")
+    return "".join(out)
+
+
+
+
+# ==================================================================================================
+# C18: sl_Status.from_ember_status and the SL_STATUS_MAP definition (bellows/types/named.py), the per-version
+# wrappers that hand a status to the application (bellows/ezsp/protocol.py, bellows/ezsp/vN/__init__.py) and every
+# comparison of a status with an enum member in the controller modules  ->  coq/gen/GenStatusFn.v
+# ==================================================================================================
+ST_CLASSES = ("EzspStatus", "EmberStatus", "sl_Status")       # class tags 0 / 1 / 2 (= Status.fam_tag)
+ST_ABSENT, ST_NOT_STATUS = 3, 4                                # answer field: command absent in the version / not a status
+ST_RESERVED = {"cls", "status", "fun", "let", "in", "match", "with", "end", "if", "then", "else", "fix", "forall", "exists",
+               "Type", "Set", "Prop", "as", "at", "return", "where", "struct", "using", "for"}
+
+ST_PRELUDE = r"""(* GENERATED by harness/pysrc.py from the SOURCE TEXT of bellows/types/named.py (sl_Status.from_ember_status, the
+   definition of SL_STATUS_MAP), of the per-version wrappers in bellows/ezsp/protocol.py and bellows/ezsp/vN/__init__.py,
+   and of the controller modules that compare a status with an enum member -- do not edit *)
+From Coq Require Import NArith List Bool String.
+Import ListNotations.
+Require Import BV.gen.GenStatus.
+Open Scope N_scope.
+
+(* ---- fixed vocabulary (not derived from the source) ---------------------------------------------
+   A status value is a member or pseudo-member of one of the three enum classes: (class tag, integer).
+   Class tags: 0 EzspStatus, 1 EmberStatus, 2 sl_Status.  Python facts used (each re-checked on the live classes when
+   this file is generated): `==` and `hash` of these enum values are those of the integer (so a tuple key
+   (class, value) is found iff the class is the same object and the integers are equal); `type(x)` is the class;
+   `isinstance(x, C)` holds iff type(x) is C or one of its subclasses ([py_subclasses], read from the live classes);
+   `C.NAME` on a class object is the member of that name ([py_getattr]: AttributeError when there is none);
+   `d[k]` raises KeyError on an absent key; a dict display / comprehension assigns its items in order. *)
+Definition pyclass := N.
+Definition pystatus := (pyclass * N)%type.
+Inductive pyexn := KeyError | AttributeError.
+Inductive pyres := PRet (v : pystatus) | PExn (e : pyexn).
+Definition pykey := (pyclass * pystatus)%type.
+Definition pydict := list (pykey * pystatus).
+
+Definition py_type (s : pystatus) : pyclass := fst s.
+Definition py_key_eqb (a b : pykey) : bool := (fst a =? fst b) && (snd (snd a) =? snd (snd b)).
+Fixpoint py_dict_get (k : pykey) (d : pydict) : option pystatus :=
+  match d with
+  | [] => None
+  | (k', v) :: d' => if py_key_eqb k' k then Some v else py_dict_get k d'
+  end.
+Definition py_dict_mem (k : pykey) (d : pydict) : bool :=
+  match py_dict_get k d with Some _ => true | None => false end.
+Fixpoint py_dict_set (k : pykey) (v : pystatus) (d : pydict) : pydict :=
+  match d with
+  | [] => [(k, v)]
+  | (k', v') :: d' => if py_key_eqb k' k then (k', v) :: d' else (k', v') :: py_dict_set k v d'
+  end.
+Definition py_dict_of (items : list (pykey * pystatus)) : pydict :=
+  fold_left (fun d kv => py_dict_set (fst kv) (snd kv) d) items [].
+
+Definition py_class_members (c : pyclass) : list (string * N) :=
+  if c =? 0 then ezsp_members else if c =? 1 then ember_members else if c =? 2 then sl_members else [].
+Fixpoint py_member_lookup (name : string) (l : list (string * N)) : option N :=
+  match l with
+  | [] => None
+  | (n, v) :: l' => if String.eqb n name then Some v else py_member_lookup name l'
+  end.
+Definition py_getattr (c : pyclass) (name : string) : option pystatus :=
+  match py_member_lookup name (py_class_members c) with Some v => Some (c, v) | None => None end.
+
+(* how a wrapper produces the status it returns from the field of the command's answer *)
+Inductive conv_kind :=
+| KConv                      (* t.sl_Status.from_ember_status(x) *)
+| KAsIs                      (* x itself *)
+| KCast (cls : pyclass)      (* Cls(x): another class around the same integer -- not a conversion *)
+| KConst (m : pystatus).     (* an enum member written in the source, no command involved *)
+(* version, wrapper, version of the class that defines it (0: ProtocolHandler), ordinal of the return statement,
+   element of the returned tuple (None: the bare value), command, position of the field in its answer, class of that
+   field in this version's command table (3: the version has no such command, 4: not a status type), kind *)
+Record wrapper_row := mkW { w_version : N; w_name : string; w_defined : N; w_path : N; w_ret : option N;
+                            w_command : string; w_ans_pos : N; w_ans_class : N; w_kind : conv_kind }.
+
+(* where the operand of a comparison with an enum member comes from (data flow inside the enclosing function) *)
+Inductive provenance :=
+| PConv                                                   (* t.sl_Status.from_ember_status(..) *)
+| PWrapper (name : string) (ret : option N)               (* what a per-version wrapper returned *)
+| PRaw (cmd : string) (pos : N) (classes : list (N * N))  (* a field of a command's answer, unconverted; (version, class) *)
+| PCast (cls : pyclass)
+| PMember (m : pystatus)
+| PParam (name : string)
+| PUnknown.
+Record compare_site := mkS { s_module : string; s_function : string; s_index : N;
+                             s_members : list pystatus; s_prov : list provenance }.
+
+"""
+
+
+def _st_class_tag(obj):
+    import bellows.types as t
+    for i, n in enumerate(ST_CLASSES):
+        if obj is getattr(t, n):
+            return i
+    return None
+
+
+def _st_member(obj):
+    """(class tag, int) of a member of one of the three classes, else None"""
+    tag = _st_class_tag(type(obj))
+    return None if tag is None else (tag, int(obj))
+
+
+class StTr:
+    """from_ember_status and the SL_STATUS_MAP definition.  Expression types: 'status' (class tag, int), 'class', 'key'
+    ((class, status)), 'bool', 'dict'.  expr() returns (term, type, binds, python value or _MISSING); binds are the
+    raising sub-expressions in evaluation order: (variable, option-valued term, exception)."""
+
+    def __init__(self, where, ns, env, counter=None):
+        self.where, self.ns, self.env = where, ns, dict(env)
+        self.counter = counter if counter is not None else [0]
+
+    def refuse(self, node, why="unsupported construct"):
+        raise GenError(self.where, f"{why}: `{ast.unparse(node)[:100] if isinstance(node, ast.AST) else node}`")
+
+    def sub(self):
+        return StTr(self.where, self.ns, self.env, self.counter)
+
+    def fresh(self, stem):
+        self.counter[0] += 1
+        return f"{stem}{self.counter[0]}"
+
+    def expr(self, e):
+        if isinstance(e, ast.Name):
+            if e.id in self.env:
+                c, ty = self.env[e.id]
+                return c, ty, [], _MISSING
+            obj = self.ns.get(e.id, _MISSING)
+            tag = _st_class_tag(obj) if obj is not _MISSING else None
+            if tag is not None:
+                return f"{tag}", "class", [], obj
+            if e.id == "SL_STATUS_MAP":
+                return "py_SL_STATUS_MAP", "dict", [], _MISSING
+            self.refuse(e, "unknown name")
+        if isinstance(e, ast.Attribute):
+            if isinstance(e.value, ast.Name) and e.value.id in self.env:
+                c, ty = self.env[e.value.id]
+                if ty != "class":
+                    self.refuse(e, "attribute of something that is not a class")
+                v = self.fresh("m")
+                return v, "status", [(v, f"py_getattr {c} {_coq_str(e.attr)}", "AttributeError")], _MISSING
+            obj = _resolve(self.ns, e)
+            m = _st_member(obj) if obj is not _MISSING else None
+            if m is None:
+                self.refuse(e, "not a member of EzspStatus / EmberStatus / sl_Status")
+            if type(obj).__dict__.get(e.attr) is not obj and getattr(type(obj), e.attr, None) is not obj:
+                self.refuse(e, "member name does not name the member")
+            return f"({m[0]}, {m[1]})", "status", [], obj
+        if isinstance(e, ast.Call) and isinstance(e.func, ast.Name) and not e.keywords and e.func.id not in self.env:
+            fn = e.func.id
+            if fn in self.ns and self.ns[fn] is not getattr(__import__("builtins"), fn, _MISSING):
+                self.refuse(e, f"`{fn}` is rebound in the module")
+            if fn == "isinstance" and len(e.args) == 2:
+                a, ta, ba, _ = self.expr(e.args[0])
+                b, tb, bb, _ = self.expr(e.args[1])
+                if (ta, tb) != ("status", "class"):
+                    self.refuse(e, "isinstance(<status>, <class>) expected")
+                return f"py_isinstance {_par(a)} {_par(b)}", "bool", ba + bb, _MISSING
+            if fn == "type" and len(e.args) == 1:
+                a, ta, ba, va = self.expr(e.args[0])
+                if ta != "status":
+                    self.refuse(e, "type(<status>) expected")
+                return f"py_type {_par(a)}", "class", ba, (type(va) if va is not _MISSING else _MISSING)
+            self.refuse(e, "call")
+        if isinstance(e, ast.Tuple) and len(e.elts) == 2 and isinstance(e.ctx, ast.Load):
+            a, ta, ba, va = self.expr(e.elts[0])
+            b, tb, bb, vb = self.expr(e.elts[1])
+            if (ta, tb) != ("class", "status"):
+                self.refuse(e, "only (class, status) tuples are dict keys here")
+            return f"({a}, {b})", "key", ba + bb, ((va, vb) if _MISSING not in (va, vb) else _MISSING)
+        if isinstance(e, ast.Compare) and len(e.ops) == 1 and isinstance(e.ops[0], (ast.In, ast.NotIn)):
+            a, ta, ba, _ = self.expr(e.left)
+            d, td, bd, _ = self.expr(e.comparators[0])
+            if (ta, td) != ("key", "dict"):
+                self.refuse(e, "membership of a (class, status) key in SL_STATUS_MAP expected")
+            t_ = f"py_dict_mem {_par(a)} {d}"
+            return (t_ if isinstance(e.ops[0], ast.In) else f"negb ({t_})"), "bool", ba + bd, _MISSING
+        if isinstance(e, ast.UnaryOp) and isinstance(e.op, ast.Not):
+            a, ta, ba, _ = self.expr(e.operand)
+            if ta != "bool":
+                self.refuse(e, "`not` of a non-boolean")
+            return f"negb ({a})", "bool", ba, _MISSING
+        if isinstance(e, ast.BoolOp):
+            parts = [self.expr(x) for x in e.values]
+            if any(p[1] != "bool" for p in parts) or any(p[2] for p in parts[1:]):
+                self.refuse(e, "and / or over anything but non-raising booleans")
+            op = " && " if isinstance(e.op, ast.And) else " || "
+            return "(" + op.join(f"({p[0]})" for p in parts) + ")", "bool", parts[0][2], _MISSING
+        if isinstance(e, ast.Subscript) and isinstance(e.ctx, ast.Load):
+            d, td, bd, _ = self.expr(e.value)
+            k, tk, bk, _ = self.expr(e.slice)
+            if (td, tk) != ("dict", "key"):
+                self.refuse(e, "SL_STATUS_MAP[<(class, status) key>] expected")
+            v = self.fresh("v")
+            return v, "status", bd + bk + [(v, f"py_dict_get {_par(k)} {d}", "KeyError")], _MISSING
+        self.refuse(e)
+
+    @staticmethod
+    def wrap(binds, body):
+        for var, term, exn in reversed(binds):
+            body = f"match {term} with\n| Some {var} =>\n{textwrap.indent(body, '    ')}\n| None => PExn {exn}\nend"
+        return body
+
+    def stmts(self, body):
+        if not body:
+            raise GenError(self.where, "control reaches the end of the function (it would return None, not a status)")
+        s, rest = body[0], body[1:]
+        if isinstance(s, ast.Pass):
+            return self.stmts(rest)
+        if isinstance(s, ast.Return):
+            if s.value is None:
+                self.refuse(s, "returns None")
+            c, ty, b, _ = self.expr(s.value)
+            if ty != "status":
+                self.refuse(s, f"returns a {ty}")
+            return self.wrap(b, f"PRet {_par(c)}")
+        if isinstance(s, ast.Assign) and len(s.targets) == 1 and isinstance(s.targets[0], ast.Name):
+            name = s.targets[0].id
+            if name in ST_RESERVED or not name.isidentifier() or name.startswith("py_") or name in self.ns:
+                self.refuse(s, "local name")
+            c, ty, b, _ = self.expr(s.value)
+            if ty not in ("status", "class", "key", "bool"):
+                self.refuse(s, f"binds a {ty}")
+            self.env[name] = (name, ty)
+            return self.wrap(b, f"let {name} := {c} in\n{self.stmts(rest)}")
+        if isinstance(s, ast.If):
+            c, ty, b, _ = self.expr(s.test)
+            if ty != "bool":
+                self.refuse(s.test, "condition is not a boolean")
+            a_ = self.sub().stmts(list(s.body) + rest)
+            b_ = self.sub().stmts(list(s.orelse) + rest)
+            return self.wrap(b, f"if {c} then\n{textwrap.indent(a_, '  ')}\nelse\n{textwrap.indent(b_, '  ')}")
+        self.refuse(s)
+
+
+def _par(c: str) -> str:
+    return c if (c.isidentifier() or c.isdigit() or (c.startswith("(") and c.endswith(")"))) else f"({c})"
+
+
+def _coq_str(s: str) -> str:
+    if '"' in s or "\\" in s or "\n" in s:
+        raise GenError(s, "character not representable in a Gallina string")
+    return f'"{s}"%string'
+
+
+def _st_named_parts():
+    """(module AST, ClassDef sl_Status, FunctionDef from_ember_status, the statement defining SL_STATUS_MAP)"""
+    from bellows.types import named
+    tree = ast.parse(inspect.getsource(named))
+    classes = [n for n in ast.walk(tree) if isinstance(n, ast.ClassDef) and n.name == "sl_Status"]
+    if len(classes) != 1 or classes[0] not in tree.body:
+        raise GenError("bellows.types.named", f"{len(classes)} definitions of class sl_Status at module level expected 1")
+    fns = [n for n in ast.walk(tree) if isinstance(n, (ast.FunctionDef, ast.AsyncFunctionDef)) and n.name == "from_ember_status"]
+    if len(fns) != 1 or fns[0] not in classes[0].body or not isinstance(fns[0], ast.FunctionDef):
+        raise GenError("sl_Status.from_ember_status", "expected exactly one plain definition, in the body of sl_Status")
+    fn = fns[0]
+    # nothing may replace the attribute or the table afterwards: every other mention of either name is refused
+    inside = {id(n) for n in ast.walk(fn)}
+    defs = []
+    for n in ast.walk(tree):
+        if isinstance(n, ast.Name) and n.id == "SL_STATUS_MAP" and id(n) not in inside:
+            defs.append(n)
+        if isinstance(n, ast.Attribute) and n.attr == "from_ember_status":
+            raise GenError("bellows.types.named", f"`{ast.unparse(n)}` mentioned outside its definition")
+        if isinstance(n, ast.Constant) and n.value in ("SL_STATUS_MAP", "from_ember_status"):
+            raise GenError("bellows.types.named", f"the name {n.value!r} as a string (setattr / globals access?)")
+    stmt = [s for s in tree.body if (isinstance(s, ast.AnnAssign) and s.value is not None and isinstance(s.target, ast.Name) and s.target.id == "SL_STATUS_MAP")
+            or (isinstance(s, ast.Assign) and len(s.targets) == 1 and isinstance(s.targets[0], ast.Name) and s.targets[0].id == "SL_STATUS_MAP")]
+    if len(stmt) != 1 or len(defs) != 1:
+        raise GenError("SL_STATUS_MAP", f"expected one module-level assignment and no other mention outside from_ember_status, found {len(stmt)} / {len(defs)}")
+    for n in ast.walk(tree):
+        if isinstance(n, ast.Name) and n.id == "sl_Status" and isinstance(n.ctx, (ast.Store, ast.Del)):
+            raise GenError("bellows.types.named", "sl_Status is rebound")
+    return named, tree, classes[0], fn, stmt[0]
+
+
+def _st_map_def(named, stmt):
+    """Gallina for the dict the defining expression denotes + the Python dict computed from the same AST"""
+    ns = vars(named)
+    where = "SL_STATUS_MAP (source)"
+    val = stmt.value
+    out = []
+    if isinstance(val, ast.DictComp):
+        if len(val.generators) != 1:
+            raise GenError(where, "more than one generator")
+        g = val.generators[0]
+        if g.is_async or g.ifs:
+            raise GenError(where, "async / filtered comprehension")
+        if not (isinstance(g.target, ast.Tuple) and len(g.target.elts) == 2 and all(isinstance(x, ast.Name) for x in g.target.elts)):
+            raise GenError(where, f"comprehension target `{ast.unparse(g.target)}` (expected two names)")
+        kn, vn = (x.id for x in g.target.elts)
+        if kn == vn or {kn, vn} & (ST_RESERVED | set(ns)) :
+            raise GenError(where, "comprehension variable names")
+        if not isinstance(g.iter, (ast.List, ast.Tuple)):
+            raise GenError(where, f"iterates over `{ast.unparse(g.iter)[:60]}` (expected a display of pairs)")
+        rows, pairs = [], []
+        for el in g.iter.elts:
+            if not (isinstance(el, ast.Tuple) and len(el.elts) == 2):
+                raise GenError(where, f"item `{ast.unparse(el)}` is not a pair")
+            tr = StTr(where, ns, {})
+            a, ta, ba, va = tr.expr(el.elts[0])
+            b, tb, bb, vb = tr.expr(el.elts[1])
+            if (ta, tb) != ("status", "status") or ba or bb:
+                raise GenError(where, f"item `{ast.unparse(el)}` is not a pair of enum members")
+            rows.append(f"({a}, {b})   (* {_cmt(ast.unparse(el))} *)")
+            pairs.append((va, vb))
+        tr = StTr(where, ns, {kn: (kn, "status"), vn: (vn, "status")})
+        k, tk, bk, _ = tr.expr(val.key)
+        v, tv, bv, _ = tr.expr(val.value)
+        if (tk, tv) != ("key", "status") or bk or bv:
+            raise GenError(where, f"`{ast.unparse(val.key)}: {ast.unparse(val.value)}` is not (class, status): status")
+        lines = []
+        for i, r in enumerate(rows):
+            term, cm = r.split("   (*", 1)
+            lines.append(f"{term}{';' if i < len(rows) - 1 else ''}   (*{cm}")
+        out.append("(* the display the comprehension iterates over, item by item *)\n"
+                   "Definition py_SL_STATUS_MAP_items : list (pystatus * pystatus) :=\n  [" + "\n   ".join(lines) + "\n  ].\n\n")
+        out.append(f"(* {{{_cmt(ast.unparse(val.key))}: {_cmt(ast.unparse(val.value))} for {kn}, {vn} in <the display>}} *)\n"
+                   f"Definition py_SL_STATUS_MAP : pydict :=\n  py_dict_of (map (fun kv => let {kn} := fst kv in let {vn} := snd kv in ({k}, {v})) py_SL_STATUS_MAP_items).\n\n")
+        # the same denotation in Python, for the cross-check against the live object
+        denot = {}
+        for va, vb in pairs:
+            e2 = StTrEval(ns, {kn: va, vn: vb})
+            denot[e2.ev(val.key)] = e2.ev(val.value)
+    elif isinstance(val, ast.Dict):
+        lines, denot = [], {}
+        for i, (ke, ve) in enumerate(zip(val.keys, val.values)):
+            if ke is None:
+                raise GenError(where, "dict unpacking in the display")
+            tr = StTr(where, ns, {})
+            k, tk, bk, kv = tr.expr(ke)
+            v, tv, bv, vv = tr.expr(ve)
+            if (tk, tv) != ("key", "status") or bk or bv or _MISSING in (kv, vv):
+                raise GenError(where, f"`{ast.unparse(ke)}: {ast.unparse(ve)}` is not (class, member): member")
+            lines.append(f"({k}, {v}){';' if i < len(val.keys) - 1 else ''}   (* {_cmt(ast.unparse(ke))}: {_cmt(ast.unparse(ve))} *)")
+            denot[kv] = vv
+        out.append("Definition py_SL_STATUS_MAP : pydict :=\n  py_dict_of\n  [" + "\n   ".join(lines) + "\n  ].\n\n")
+    else:
+        raise GenError(where, f"defined by `{ast.unparse(val)[:60]}` (expected a dict display or comprehension)")
+    live = named.SL_STATUS_MAP
+    if type(live) is not dict or list(denot.items()) != list(live.items()) or any(type(a) is not type(b) or type(x[1]) is not type(y[1]) for (x, a), (y, b) in zip(denot.items(), live.items())):
+        raise GenError(where, "the dict denoted by the defining expression differs from the live SL_STATUS_MAP (changed after its definition?)")
+    return "".join(out)
+
+
+class StTrEval:
+    """the pure expressions StTr accepts, evaluated in Python (cross-check of the emitted dict against the live one)"""
+
+    def __init__(self, ns, env):
+        self.ns, self.env = ns, env
+
+    def ev(self, e):
+        if isinstance(e, ast.Name):
+            return self.env[e.id] if e.id in self.env else self.ns[e.id]
+        if isinstance(e, ast.Attribute):
+            return _resolve(self.ns, e)
+        if isinstance(e, ast.Call) and isinstance(e.func, ast.Name) and e.func.id == "type" and len(e.args) == 1:
+            return type(self.ev(e.args[0]))
+        if isinstance(e, ast.Tuple):
+            return tuple(self.ev(x) for x in e.elts)
+        raise GenError("SL_STATUS_MAP (source)", f"cannot evaluate `{ast.unparse(e)}`")
+
+
+def _st_python_facts():
+    """the facts of the fixed vocabulary, re-checked on the live classes; returns the subclass table"""
+    import bellows.types as t
+    classes = [getattr(t, n) for n in ST_CLASSES]
+    for c in classes:
+        if c.__subclasses__():
+            raise GenError(c.__name__, "has subclasses")
+        a = c(0x17)
+        for d in classes:
+            b = d(0x17)
+            if not (a == b and hash(a) == hash(b) and not (a != b)) or c(0x18) == b:
+                raise GenError(c.__name__, "== / hash of an enum value is not that of its integer")
+        if type(c(0xEE)) is not c or int(c(0xEE)) != 0xEE:
+            raise GenError(c.__name__, "an undefined code does not construct a pseudo-member of the class")
+        if "__eq__" in c.__dict__ or "__hash__" in c.__dict__ or type(c).__dict__.get("__instancecheck__") is not None:
+            raise GenError(c.__name__, "overrides __eq__ / __hash__ / __instancecheck__")
+    sub = [(i, j) for i, c in enumerate(classes) for j, d in enumerate(classes) if issubclass(c, d)]
+    return sub
+
+
+# ---- data flow inside one function: where does a value compared with / returned as a status come from -------------
+class FlowTr:
+    """Abstract interpretation of one function body over sets of provenances:
+        ("conv", inner)            t.sl_Status.from_ember_status(<inner>)
+        ("cast", cls, inner)       <one of the three classes>(<inner>)
+        ("raw", cmd, pos)          the answer of an EZSP command (pos None) or its pos-th field
+        ("wrapper", name, pos)     what a per-version wrapper returned (pos None: the value itself)
+        ("member", cls, int)       an enum member written in the source
+        ("param", name) / ("tuple", (sets..)) / ("unknown",) / ("unbound",): no assignment on some path (dropped when read)
+    Branches join, loops run to a fixed point, handlers start from the join of every point of the guarded body."""
+
+    RECEIVERS_ANY = ("self._ezsp", "ezsp", "self._protocol", "app._ezsp", "self._app._ezsp", "self.app._ezsp", "self._application._ezsp")
+
+    def __init__(self, where, ns, commands, wrappers, self_is_ezsp):
+        self.where, self.ns, self.commands, self.wrappers = where, ns, commands, wrappers
+        self.receivers = self.RECEIVERS_ANY + (("self",) if self_is_ezsp else ())
+        self.sites = {}          # (lineno, col) -> [source, members, set of provenances]
+        self.returns = {}        # (lineno, col) -> [source, value set]
+        self.loops = []
+        self.nested = []
+
+    UNKNOWN = frozenset([("unknown",)])
+    UNBOUND = frozenset([("unbound",)])      # a local no statement on this path has assigned: reading it raises
+
+    @staticmethod
+    def bound(vals):
+        return frozenset(v for v in vals if v != ("unbound",))
+
+    def refuse(self, node, why="unsupported construct"):
+        raise GenError(self.where, f"{why}: `{ast.unparse(node)[:100]}`")
+
+    # -- values
+    def member(self, e):
+        if isinstance(e, ast.Attribute):
+            obj = _resolve(self.ns, e)
+            if obj is not _MISSING:
+                m = _st_member(obj)
+                if m is not None and isinstance(type(obj), type) and getattr(type(obj), e.attr, None) is obj:
+                    return m
+        return None
+
+    def project(self, vals, i):
+        out = set()
+        for v in self.bound(vals):
+            if v[0] in ("raw", "wrapper") and v[2] is None:
+                out.add((v[0], v[1], i))
+            elif v[0] == "tuple" and i < len(v[1]):
+                out |= v[1][i]
+            else:
+                out.add(("unknown",))
+        return frozenset(out)
+
+    def ev(self, e, env):
+        """value set of an expression; also records the comparison sites inside it"""
+        if isinstance(e, ast.Await):
+            return self.ev(e.value, env)
+        if isinstance(e, ast.NamedExpr):
+            v = self.ev(e.value, env)
+            self.bind(e.target, v, env)
+            return v
+        if isinstance(e, ast.Name):
+            return self.bound(env.get(e.id, self.UNKNOWN))
+        m = self.member(e)
+        if m is not None:
+            return frozenset([("member",) + m])
+        if isinstance(e, ast.Compare):
+            self.compare(e, env)
+            return self.UNKNOWN
+        if isinstance(e, ast.Tuple) and isinstance(e.ctx, ast.Load) and not any(isinstance(x, ast.Starred) for x in e.elts):
+            return frozenset([("tuple", tuple(self.ev(x, env) for x in e.elts))])
+        if isinstance(e, ast.Subscript) and isinstance(e.slice, ast.Constant) and isinstance(e.slice.value, int) \
+                and not isinstance(e.slice.value, bool) and e.slice.value >= 0:
+            return self.project(self.ev(e.value, env), e.slice.value)
+        if isinstance(e, ast.Call):
+            fsrc = ast.unparse(e.func)
+            args = [self.ev(a, env) for a in e.args] + [self.ev(k.value, env) for k in e.keywords]
+            if fsrc == "t.sl_Status.from_ember_status" and self.ns.get("t") is __import__("bellows.types", fromlist=["x"]):
+                if len(e.args) != 1 or e.keywords or isinstance(e.args[0], ast.Starred):
+                    self.refuse(e, "conversion call with other than one positional argument")
+                return frozenset([("conv", args[0])])
+            obj = _resolve(self.ns, e.func)
+            tag = _st_class_tag(obj) if obj is not _MISSING else None
+            if tag is not None:
+                if len(e.args) != 1 or e.keywords:
+                    self.refuse(e, "status class called with other than one positional argument")
+                return frozenset([("cast", tag, args[0])])
+            if isinstance(e.func, ast.Attribute) and ast.unparse(e.func.value) in self.receivers:
+                name = e.func.attr
+                if name in ("_command", "command") and e.args and isinstance(e.args[0], ast.Constant) and isinstance(e.args[0].value, str):
+                    name = e.args[0].value
+                    if name not in self.commands:
+                        return self.UNKNOWN
+                    return frozenset([("raw", name, None)])
+                if name in self.commands and name in self.wrappers:
+                    self.refuse(e, "name is both an EZSP command and a wrapper")
+                if name in self.commands:
+                    return frozenset([("raw", name, None)])
+                if name in self.wrappers:
+                    return frozenset([("wrapper", name, None)])
+            return self.UNKNOWN
+        if isinstance(e, ast.IfExp):
+            self.ev(e.test, env)
+            return self.ev(e.body, env) | self.ev(e.orelse, env)
+        if isinstance(e, (ast.ListComp, ast.SetComp, ast.GeneratorExp, ast.DictComp)):
+            inner = dict(env)
+            for g in e.generators:
+                self.ev(g.iter, inner)
+                self.bind(g.target, self.UNKNOWN, inner)
+                for c in g.ifs:
+                    self.ev(c, inner)
+            for x in ([e.key, e.value] if isinstance(e, ast.DictComp) else [e.elt]):
+                self.ev(x, inner)
+            return self.UNKNOWN
+        if isinstance(e, ast.Lambda):
+            inner = dict(env)
+            for a in ast.walk(e.args):
+                if isinstance(a, ast.arg):
+                    inner[a.arg] = self.UNKNOWN
+            self.ev(e.body, inner)
+            return self.UNKNOWN
+        for c in ast.iter_child_nodes(e):
+            if isinstance(c, ast.expr):
+                self.ev(c, env)
+        return self.UNKNOWN
+
+    def compare(self, e, env):
+        operands = [e.left] + list(e.comparators)
+        for l, op, r in zip(operands, e.ops, operands[1:]):
+            found = None
+            if isinstance(op, (ast.Eq, ast.NotEq, ast.Is, ast.IsNot)):
+                ml, mr = self.member(l), self.member(r)
+                if mr is not None and ml is None:
+                    found = (l, [mr])
+                elif ml is not None and mr is None:
+                    found = (r, [ml])
+            elif isinstance(op, (ast.In, ast.NotIn)) and isinstance(r, (ast.Tuple, ast.List, ast.Set)) and r.elts:
+                ms = [self.member(x) for x in r.elts]
+                if all(m is not None for m in ms):
+                    found = (l, ms)
+                elif any(m is not None for m in ms):
+                    self.refuse(e, "collection mixing enum members with other values")
+            if found is None:
+                for x in (l, r):
+                    self.ev(x, env)
+                continue
+            operand, members = found
+            vals = self.ev(operand, env)
+            key = (e.lineno, e.col_offset, operands.index(l))
+            ent = self.sites.setdefault(key, [ast.unparse(e), members, set()])
+            ent[2] |= vals
+
+    def bind(self, target, vals, env):
+        if isinstance(target, ast.Name):
+            env[target.id] = vals
+        elif isinstance(target, (ast.Tuple, ast.List)):
+            starred = any(isinstance(x, ast.Starred) for x in target.elts)
+            for i, x in enumerate(target.elts):
+                if isinstance(x, ast.Starred):
+                    self.bind(x.value, self.UNKNOWN, env)
+                else:
+                    self.bind(x, self.UNKNOWN if starred else self.project(vals, i), env)
+        elif isinstance(target, (ast.Attribute, ast.Subscript)):
+            self.ev(target.value, env)
+        else:
+            self.refuse(target, "assignment target")
+
+    # -- statements: exec returns the environment after the block, or None when control cannot fall through
+    @staticmethod
+    def join(*envs):
+        envs = [e for e in envs if e is not None]
+        if not envs:
+            return None
+        out = {}
+        for k in set().union(*envs):
+            out[k] = frozenset().union(*[e.get(k, FlowTr.UNBOUND) for e in envs])
+        return out
+
+    def block(self, body, env, trace=None):
+        for s in body:
+            if env is None:
+                return None
+            env = self.stmt(s, env)
+            if trace is not None and env is not None:
+                trace.append(dict(env))
+        return env
+
+    def loop(self, s, env, head):
+        """head(env) evaluates the loop test / binds the loop target"""
+        entry = dict(env)
+        for _ in range(12):
+            self.loops.append({"cont": [], "brk": []})
+            cur = dict(entry)
+            head(cur)
+            out = self.block(s.body, dict(cur))
+            fr = self.loops.pop()
+            new = self.join(entry, out, *fr["cont"])
+            if new == entry:
+                break
+            entry = new
+        else:
+            raise GenError(self.where, "loop analysis did not stabilise")
+        exit_env = dict(entry)
+        head(exit_env)
+        after = self.block(s.orelse, exit_env)
+        return self.join(after, *fr["brk"])
+
+    def stmt(self, s, env):
+        if isinstance(s, (ast.Pass, ast.Import, ast.ImportFrom, ast.Global, ast.Nonlocal)):
+            return env
+        if isinstance(s, ast.Expr):
+            self.ev(s.value, env)
+            return env
+        if isinstance(s, ast.Assign):
+            v = self.ev(s.value, env)
+            for t_ in s.targets:
+                self.bind(t_, v, env)
+            return env
+        if isinstance(s, ast.AnnAssign):
+            if s.value is not None:
+                self.bind(s.target, self.ev(s.value, env), env)
+            return env
+        if isinstance(s, ast.AugAssign):
+            self.ev(s.value, env)
+            self.bind(s.target, self.UNKNOWN, env)
+            return env
+        if isinstance(s, ast.Delete):
+            for t_ in s.targets:
+                if isinstance(t_, ast.Name):
+                    env[t_.id] = self.UNKNOWN
+            return env
+        if isinstance(s, ast.Return):
+            if s.value is not None:
+                v = self.ev(s.value, env)
+                ent = self.returns.setdefault((s.lineno, s.col_offset), [ast.unparse(s), set()])
+                ent[1] |= v
+            return None
+        if isinstance(s, ast.Raise):
+            for x in (s.exc, s.cause):
+                if x is not None:
+                    self.ev(x, env)
+            return None
+        if isinstance(s, ast.Assert):
+            self.ev(s.test, env)
+            if s.msg is not None:
+                self.ev(s.msg, env)
+            return env
+        if isinstance(s, ast.If):
+            self.ev(s.test, env)
+            return self.join(self.block(s.body, dict(env)), self.block(s.orelse, dict(env)))
+        if isinstance(s, (ast.For, ast.AsyncFor)):
+            self.ev(s.iter, env)
+            return self.loop(s, env, lambda e_: self.bind(s.target, self.UNKNOWN, e_))
+        if isinstance(s, ast.While):
+            return self.loop(s, env, lambda e_: self.ev(s.test, e_))
+        if isinstance(s, ast.Continue):
+            if not self.loops:
+                self.refuse(s, "outside a loop")
+            self.loops[-1]["cont"].append(dict(env))
+            return None
+        if isinstance(s, ast.Break):
+            if not self.loops:
+                self.refuse(s, "outside a loop")
+            self.loops[-1]["brk"].append(dict(env))
+            return None
+        if isinstance(s, (ast.With, ast.AsyncWith)):
+            for it in s.items:
+                self.ev(it.context_expr, env)
+                if it.optional_vars is not None:
+                    self.bind(it.optional_vars, self.UNKNOWN, env)
+            # a context manager may swallow an exception raised inside: what follows may see any point of the body
+            trace = [dict(env)]
+            out = self.block(s.body, dict(env), trace)
+            return self.join(out, *trace) if out is not None else self.join(*trace)
+        if isinstance(s, ast.Try) or s.__class__.__name__ == "TryStar":
+            trace = [dict(env)]
+            out = self.block(s.body, dict(env), trace)
+            anywhere = self.join(*trace, out)
+            outs = [self.block(s.orelse, dict(out)) if out is not None else None]
+            for h in s.handlers:
+                he = dict(anywhere)
+                if h.type is not None:
+                    self.ev(h.type, he)
+                if h.name:
+                    he[h.name] = self.UNKNOWN
+                outs.append(self.block(h.body, he))
+            res = self.join(*outs)
+            if s.finalbody:
+                fin = self.block(s.finalbody, self.join(anywhere, *outs))
+                return None if (res is None or fin is None) else self.join(fin)
+            return res
+        if isinstance(s, (ast.FunctionDef, ast.AsyncFunctionDef, ast.ClassDef)):
+            self.nested.append(s)
+            if not isinstance(s, ast.ClassDef):
+                for d in s.decorator_list:
+                    self.ev(d, env)
+            env[s.name] = self.UNKNOWN
+            return env
+        self.refuse(s)
+
+    def run(self, node):
+        env = {}
+        a = node.args
+        for x in a.posonlyargs + a.args + a.kwonlyargs + ([a.vararg] if a.vararg else []) + ([a.kwarg] if a.kwarg else []):
+            env[x.arg] = frozenset([("param", x.arg)])
+        for d in list(a.defaults) + [d for d in a.kw_defaults if d is not None]:
+            self.ev(d, {})
+        self.block(node.body, env)
+        return self
+
+
+def _st_functions(tree):
+    """(qualified name, node, enclosing class name or None) of every function of a module, nested ones included"""
+    out = []
+
+    def walk(body, prefix, cls):
+        for s in body:
+            if isinstance(s, ast.ClassDef):
+                walk(s.body, prefix + s.name + ".", s.name)
+            elif isinstance(s, (ast.FunctionDef, ast.AsyncFunctionDef)):
+                out.append((prefix + s.name, s, cls))
+            elif isinstance(s, (ast.If, ast.Try, ast.With)):
+                for f in ("body", "orelse", "finalbody"):
+                    walk(getattr(s, f, []) or [], prefix, cls)
+                for h in getattr(s, "handlers", []):
+                    walk(h.body, prefix, cls)
+    walk(tree.body, "", None)
+    return out
+
+
+def _st_module_ns(path, tree):
+    """names a scanned module binds to bellows.types (only these are resolved; everything else stays symbolic)"""
+    import bellows.types as t
+    ns = {}
+    for s in ast.walk(tree):
+        if isinstance(s, ast.Import):
+            for al in s.names:
+                if al.name == "bellows.types" and al.asname:
+                    ns[al.asname] = t
+        if isinstance(s, ast.ImportFrom) and s.module == "bellows" and s.level == 0:
+            for al in s.names:
+                if al.name == "types":
+                    ns[al.asname or "types"] = t
+    for n in ast.walk(tree):
+        if isinstance(n, ast.Name) and n.id in ns and isinstance(n.ctx, (ast.Store, ast.Del)):
+            raise GenError(str(path), f"`{n.id}` (bellows.types) is rebound")
+        if isinstance(n, ast.arg) and n.arg in ns:
+            raise GenError(str(path), f"`{n.arg}` (bellows.types) is a parameter name")
+    return ns
+
+
+def _st_field_class(cls, cmd, pos):
+    import bellows.types as t
+    if cmd not in cls.COMMANDS:
+        return ST_ABSENT
+    rx = cls.COMMANDS[cmd][2]
+    if not isinstance(rx, dict) or pos is None or pos >= len(rx):
+        return ST_NOT_STATUS
+    ty = list(rx.values())[pos]
+    for i, n in enumerate(ST_CLASSES):
+        if isinstance(ty, type) and issubclass(ty, getattr(t, n)):
+            return i
+    return ST_NOT_STATUS
+
+
+def _st_annotation_positions(node):
+    """positions of the declared result that are `t.sl_Status`: {None} for the bare value, {k, ..} for a tuple"""
+    r = node.returns
+    if isinstance(r, ast.Constant) and isinstance(r.value, str):
+        r = ast.parse(r.value, mode="eval").body
+    if r is None:
+        return set()
+    if ast.unparse(r) == "t.sl_Status":
+        return {None}
+    if isinstance(r, ast.Subscript) and ast.unparse(r.value) in ("tuple", "Tuple", "typing.Tuple") and isinstance(r.slice, ast.Tuple):
+        return {i for i, x in enumerate(r.slice.elts) if ast.unparse(x) == "t.sl_Status"}
+    if "sl_Status" in ast.unparse(r):
+        raise GenError(node.name, f"result annotation `{ast.unparse(r)}` mentions sl_Status in a form that is not understood")
+    return set()
+
+
+def _optN(p):
+    return "None" if p is None else f"(Some {p})"
+
+
+def _st_wrappers_and_sites():
+    import bellows.ezsp as E
+    import bellows.ezsp.protocol as P
+    import common
+    versions = sorted(E.EZSP._BY_VERSION)
+    vclass = {v: E.EZSP._BY_VERSION[v] for v in versions}
+    for v, c in vclass.items():
+        if c.VERSION != v or not issubclass(c, P.ProtocolHandler):
+            raise GenError(f"EZSP._BY_VERSION[{v}]", "VERSION / base class")
+    commands = set().union(*[set(c.COMMANDS) for c in vclass.values()])
+    # every class on the way from a version's class to ProtocolHandler, with its source
+    owners = {}                    # class object -> (tag, tree, path)
+    for v in versions:
+        for c in vclass[v].__mro__:
+            if c is object or c in owners or not issubclass(c, P.ProtocolHandler):
+                continue
+            if c is P.ProtocolHandler:
+                owners[c] = 0
+            elif c in vclass.values():
+                owners[c] = c.VERSION
+            else:
+                raise GenError(c.__name__, "a class between a version's handler and ProtocolHandler that is not itself a version's handler")
+        for c in vclass[v].__mro__:
+            if c is not object and not issubclass(c, P.ProtocolHandler) and c.__name__ not in ("ABC", "Generic"):
+                raise GenError(c.__name__, f"unexpected base class of {vclass[v].__name__}")
+
+    repo = common.REPO
+    files = [repo / "bellows" / "ezsp" / "protocol.py"] + [repo / "bellows" / "ezsp" / f"v{v}" / "__init__.py" for v in versions] + \
+            [repo / "bellows" / "ezsp" / "__init__.py", repo / "bellows" / "multicast.py"] + sorted((repo / "bellows" / "zigbee").glob("*.py"))
+    trees = {}
+    for f in files:
+        src = f.read_text()
+        trees[f] = ast.parse(src)
+    for c in owners:
+        f = pathlib.Path(inspect.getsourcefile(c)).resolve()
+        if f not in [x.resolve() for x in files]:
+            raise GenError(c.__name__, f"defined in {f}, which is not scanned")
+
+    # candidate wrapper names: every method a handler class defines that is not an EZSP command
+    method_defs = {}               # (class name, method) -> node
+    for f, tree in trees.items():
+        for q, node, cls in _st_functions(tree):
+            if cls is not None and q == f"{cls}.{node.name}":
+                method_defs[(f, cls, node.name)] = node
+    owner_file = {c: next(x for x in files if x.resolve() == pathlib.Path(inspect.getsourcefile(c)).resolve()) for c in owners}
+    wrapper_names = set()
+    for c in owners:
+        for name, obj in vars(c).items():
+            if inspect.isfunction(obj) and not (name.startswith("__") and name.endswith("__")):
+                if (owner_file[c], c.__name__, name) not in method_defs:
+                    raise GenError(f"{c.__name__}.{name}", "method without a plain definition in the class body (assigned / decorated away?)")
+                wrapper_names.add(name)
+            elif not name.startswith("__") and callable(obj) and not isinstance(obj, type):
+                raise GenError(f"{c.__name__}.{name}", f"callable attribute of kind {type(obj).__name__}")
+    both = wrapper_names & commands
+    if both:
+        raise GenError("ProtocolHandler", f"methods shadow EZSP commands: {sorted(both)}")
+
+    # ---- analyse every function of every scanned module once
+    analysed = {}                  # (file, qualname) -> FlowTr
+    order = []
+    for f, tree in trees.items():
+        ns = _st_module_ns(f, tree)
+        rel = str(f.relative_to(repo))
+        self_is_ezsp = rel.startswith("bellows/ezsp/")
+        todo = list(_st_functions(tree))
+        seen = set()
+        while todo:
+            q, node, cls = todo.pop(0)
+            if (f, q) in seen:
+                raise GenError(f"{rel}:{q}", "defined twice")
+            seen.add((f, q))
+            tr = FlowTr(f"{rel}:{q} (source)", ns, commands, wrapper_names, self_is_ezsp).run(node)
+            analysed[(f, q)] = (tr, node, cls)
+            order.append((f, q))
+            for n in tr.nested:
+                if isinstance(n, ast.ClassDef):
+                    todo += [(f"{q}.<locals>.{a}", b, c_) for a, b, c_ in _st_functions(ast.Module(body=[n], type_ignores=[]))]
+                else:
+                    todo.append((f"{q}.<locals>.{n.name}", n, None))
+
+    # ---- wrapper table
+    rows, covered = [], {}
+    for v in versions:
+        c = vclass[v]
+        for name in sorted(wrapper_names):
+            definer = next((k for k in c.__mro__ if k in owners and name in vars(k)), None)
+            if definer is None:
+                continue
+            tr, node, _ = analysed[(owner_file[definer], f"{definer.__name__}.{name}")]
+            if getattr(c, name) is not vars(definer)[name]:
+                raise GenError(f"{c.__name__}.{name}", "resolves to something else than the function in the class body")
+            declared = _st_annotation_positions(node)
+            if not tr.returns:
+                continue
+            if declared and not isinstance(node, ast.AsyncFunctionDef):
+                raise GenError(f"{definer.__name__}.{name}", "a status-returning wrapper that is not a coroutine function")
+            for path, key in enumerate(sorted(tr.returns)):
+                src, vals = tr.returns[key]
+                # (position, value) pairs of this return statement
+                cells = []
+                for val in sorted(vals, key=repr):
+                    if val[0] == "tuple":
+                        cells += [(i, x) for i, s_ in enumerate(val[1]) for x in sorted(s_, key=repr)]
+                        if any(p is None for p in declared):
+                            raise GenError(f"{definer.__name__}.{name}", f"declared to return a status, returns a tuple: `{src}`")
+                    else:
+                        cells.append((None, val))
+                        if any(p is not None for p in declared):
+                            raise GenError(f"{definer.__name__}.{name}", f"declared to return a tuple with a status, returns `{src}`")
+                for pos, val in cells:
+                    kind = None
+                    if val[0] == "conv":
+                        inner = val[1]
+                        if len(inner) != 1 or next(iter(inner))[0] != "raw" or next(iter(inner))[2] is None:
+                            raise GenError(f"{definer.__name__}.{name}", f"converts something that is not one field of a command's answer: `{src}`")
+                        _, cmd, apos = next(iter(inner))
+                        kind = ("KConv", cmd, apos)
+                    elif val[0] == "raw" and val[2] is not None:
+                        kind = ("KAsIs", val[1], val[2])
+                    elif val[0] == "cast":
+                        inner = val[2]
+                        if len(inner) != 1 or next(iter(inner))[0] != "raw" or next(iter(inner))[2] is None:
+                            raise GenError(f"{definer.__name__}.{name}", f"casts something that is not one field of a command's answer: `{src}`")
+                        _, cmd, apos = next(iter(inner))
+                        kind = (f"(KCast {val[1]})", cmd, apos)
+                    elif val[0] == "member":
+                        kind = (f"(KConst ({val[1]}, {val[2]}))", "", 0)
+                    if kind is None:
+                        if pos in declared:
+                            raise GenError(f"{definer.__name__}.{name}", f"cannot tell where the status returned by `{src}` comes from")
+                        continue
+                    k, cmd, apos = kind
+                    fc = _st_field_class(c, cmd, apos) if cmd else 2
+                    if pos not in declared and (fc == ST_NOT_STATUS or (fc == ST_ABSENT and k == "KAsIs")) and k == "KAsIs":
+                        continue            # an undeclared position handing on a field that is not a status
+                    rows.append(f'mkW {v} {_coq_str(name)} {owners[definer]} {path} {_optN(pos)} {_coq_str(cmd)} {apos} {fc} {k}'
+                                f'   (* {definer.__name__}.{name}: {_cmt(src)[:90]} *)')
+                    covered.setdefault(name, set()).add(v)
+                for pos in declared:
+                    if not any(p == pos for p, _ in cells):
+                        raise GenError(f"{definer.__name__}.{name}", f"`{src}` has no element {pos}")
+    if not rows:
+        raise GenError("ProtocolHandler", "no status-returning wrapper found")
+
+    # ---- comparison sites
+    sites = []
+    for f, q in order:
+        tr, node, cls = analysed[(f, q)]
+        rel = str(f.relative_to(repo))
+        # versions in which this function is the one that runs (methods of handler classes), else all
+        applicable = versions
+        own = next((k for k in owners if owner_file[k] == f and k.__name__ == cls), None) if cls else None
+        if own is not None and q == f"{cls}.{node.name}":
+            applicable = [v for v in versions if next((k for k in vclass[v].__mro__ if k in owners and node.name in vars(k)), None) is own]
+        for idx, key in enumerate(sorted(tr.sites)):
+            src, members, vals = tr.sites[key]
+            provs = set()
+            for val in vals:
+                if val[0] == "conv":
+                    provs.add("PConv")
+                elif val[0] == "wrapper":
+                    provs.add(f"PWrapper {_coq_str(val[1])} {_optN(val[2])}")
+                elif val[0] == "raw" and val[2] is not None:
+                    cl = [(v, _st_field_class(vclass[v], val[1], val[2])) for v in applicable if val[1] in vclass[v].COMMANDS]
+                    provs.add(f"PRaw {_coq_str(val[1])} {val[2]} [{'; '.join(f'({a}, {b})' for a, b in cl)}]")
+                elif val[0] == "cast":
+                    provs.add(f"PCast {val[1]}")
+                elif val[0] == "member":
+                    provs.add(f"PMember ({val[1]}, {val[2]})")
+                elif val[0] == "param":
+                    provs.add(f"PParam {_coq_str(val[1])}")
+                else:
+                    provs.add("PUnknown")
+            sites.append(f"mkS {_coq_str(rel)} {_coq_str(q)} {idx} [{'; '.join(f'({a}, {b})' for a, b in members)}] [{'; '.join(sorted(provs))}]"
+                         f"   (* {_cmt(src)[:100]} *)")
+    return rows, sites, versions, sorted(covered)
+
+
+def _coq_list(name, ty, items, per_line=True):
+    lines = []
+    for i, r in enumerate(items):
+        term, _, cm = r.partition("   (*")
+        lines.append(f"{term}{';' if i < len(items) - 1 else ''}" + (f"   (*{cm}" if cm else ""))
+    return f"Definition {name} : list {ty} :=\n  [" + "\n   ".join(lines) + "\n  ].\n\n"
+
+
+def gen_status_fn() -> str:
+    import bellows.types as t
+    named, tree, cls_node, fn, map_stmt = _st_named_parts()
+    ns = vars(named)
+    out = [ST_PRELUDE]
+    sub = _st_python_facts()
+    out.append("(* issubclass(a, b) on the live classes *)\n"
+               f"Definition py_subclasses : list (pyclass * pyclass) := [{'; '.join(f'({a}, {b})' for a, b in sub)}].\n"
+               "Definition py_isinstance (s : pystatus) (c : pyclass) : bool :=\n"
+               "  existsb (fun ab => (fst ab =? py_type s) && (snd ab =? c)) py_subclasses.\n\n")
+    out.append(_st_map_def(named, map_stmt))
+
+    # ---- from_ember_status
+    where = "sl_Status.from_ember_status (source)"
+    if [ast.unparse(d) for d in fn.decorator_list] != ["classmethod"]:
+        raise GenError(where, f"decorators {[ast.unparse(d) for d in fn.decorator_list]} (expected exactly @classmethod: a cache keyed by the "
+                              "bare value would confuse the families, whose values compare and hash as integers)")
+    a = fn.args
+    if [x.arg for x in a.args] != ["cls", "status"] or a.posonlyargs or a.kwonlyargs or a.vararg or a.kwarg or a.defaults:
+        raise GenError(where, f"parameters `{ast.unparse(a)}`")
+    if not isinstance(vars(t.sl_Status).get("from_ember_status"), classmethod) or named.sl_Status is not t.sl_Status:
+        raise GenError(where, "the live attribute is not the classmethod of the class body")
+    live_src = textwrap.dedent(inspect.getsource(vars(t.sl_Status)["from_ember_status"].__func__))
+    if ast.dump(ast.parse(live_src).body[0]) != ast.dump(fn):
+        raise GenError(where, "the live function is not the one in the class body")
+    clean = _StripLogs().visit(ast.parse(live_src).body[0])
+    stripped = [ast.unparse(s)[:70] for s in ast.walk(fn) if isinstance(s, ast.Expr) and isinstance(s.value, ast.Call)
+                and ast.unparse(s.value.func).split(".")[0] in ("LOGGER", "_LOGGER")]
+    tr = StTr(where, ns, {"cls": ("cls", "class"), "status": ("status", "status")})
+    term = tr.stmts(list(clean.body))
+    out.append("(* from the source of sl_Status.from_ember_status; cls: the class the method is called on; the result is the value\n"
+               "   returned or the exception an operation of the body raises.  Log calls removed: "
+               + "; ".join(_cmt(s).replace("\n", " ") for s in stripped) + " *)\n"
+               f"Definition py_from_ember_status (cls : pyclass) (status : pystatus) : pyres :=\n{textwrap.indent(term, '  ')}.\n\n")
+
+    rows, sites, versions, covered = _st_wrappers_and_sites()
+    out.append("(* ---- the wrappers of the protocol handlers that return a status, one row per version x wrapper x return\n"
+               "   statement x status position (from the AST of the function that version's class resolves the name to) *)\n")
+    out.append(f"Definition py_versions : list N := [{'; '.join(str(v) for v in versions)}].\n")
+    out.append(f"Definition py_wrapper_names : list string := [{'; '.join(_coq_str(n) for n in covered)}].\n\n")
+    out.append(_coq_list("py_wrappers", "wrapper_row", rows))
+    out.append("(* ---- every comparison (== != is in, also inside assert / while / conditional expressions) of a value with members\n"
+               "   of the three status classes in bellows/ezsp/*.py, bellows/ezsp/vN/__init__.py, bellows/multicast.py and\n"
+               "   bellows/zigbee/*.py: module, function, ordinal inside the function, the members, where the other operand\n"
+               "   comes from on the paths that reach the comparison (bellows/cli is not part of the controller and not scanned) *)\n")
+    out.append(_coq_list("py_compare_sites", "compare_site", sites))
     return "".join(out)
